@@ -1,7 +1,11 @@
 (** Facts about [real_path] / [resolve_loop] (Backup/BackupFS.v, the model of
     resolvePathWithInfo in fs_utils.go) over the concrete OS filesystem
     [osfs] and the kernel path walk [resolve] of Fs/FsModel.v.  Property C16.
-    See Props/C16.v for the property-level statements and what is excluded. *)
+    See Props/C16.v for the property-level statements and what is excluded.
+    Parts A-J treat absolute names; part K lifts the exclusion of relative
+    names (D20): the loop invariant is generalised to candidates that are
+    relative to the working directory (the root), possibly with leading "..",
+    and become absolute when an absolute link target is met. *)
 From stdpp Require Import gmap.
 From BFS Require Import Backup.Triggers Fs.FsSpec.
 From BFS Require Import Proofs.PathFacts Proofs.C19Facts Proofs.FsFacts.
@@ -1129,6 +1133,164 @@ Qed.
 Lemma nil_dec : forall (A : Type) (l : list A), sumbool (l = nil) (l <> nil).
 Proof. intros A [|x l]; [left; reflexivity | right; discriminate]. Qed.
 
+(** ** consequences of the loop's postcondition [post], for any name whose
+    components (read from the root) are [cs]: used for absolute names below
+    and for relative names in part K *)
+Section PostFacts.
+  Variable s : fstate.
+  Notation f := (st_fs s).
+  Hypothesis Hwf : wf f.
+  Variable cs : list str.
+  Hypothesis Hcs : Forall pg cs.
+  Variable rp : str.
+  Hypothesis Hpost : post s [] cs rp.
+
+  Lemma post_parts : forall d rest' k',
+    cs = d ++ rest' -> Forall pg k' -> Forall pg (k' ++ rest') /\ Forall pg rest' /\ Forall pg d.
+  Proof.
+    intros d rest' k' E Hk'. pose proof Hcs as H. rewrite E in H.
+    apply Forall_app in H. destruct H as [Hd Hr]. repeat split; try assumption.
+    apply Forall_app. split; assumption.
+  Qed.
+
+  (** the result is absolute, cleaned, without a symlink among its proper ancestors *)
+  Lemma post_nolinkpar : nolinkpar f rp.
+  Proof.
+    destruct Hpost as (d & rest' & k' & E & Hne & Erp & Hk' & Hnl' & Hstop & Htr & Hmid).
+    cbn [app] in E.
+    destruct (post_parts d rest' k' E Hk') as (Hall & Hr' & Hd).
+    subst rp. split; [apply kpath_pg_abs_cleaned; exact Hall|].
+    rewrite (comps_kpath_pg _ Hall). apply Forall_kprefixes. intros pre r Hr E2.
+    apply app_eq_app in E2. destruct E2 as [l [[E3 E4]|[E3 E4]]].
+    + exact (Hnl' pre l E3).
+    + destruct l as [|x l].
+      * rewrite app_nil_r in E3. subst pre. apply (Hnl' k' []). rewrite app_nil_r. reflexivity.
+      * destruct Hstop as [Hone|Habsent].
+        -- exfalso. rewrite E4 in Hone. cbn [length] in Hone. rewrite app_length in Hone.
+           destruct r; [contradiction Hr; reflexivity | cbn [length] in Hone; lia].
+        -- rewrite E4 in Habsent. change (firstn 1 ((x :: l) ++ r)) with [x] in Habsent.
+           subst pre. intros m t El.
+           pose proof (absent_below f _ l Hwf Habsent) as Hab.
+           rewrite <- app_assoc in Hab. cbn [app] in Hab.
+           norm_keys. rewrite El in Hab. discriminate Hab.
+  Qed.
+
+  (** [rp] names the entry the kernel walk of [cs] from the root names *)
+  Lemma post_same_entry : forall r,
+    walks f [] cs false r -> resolve f rp false = r.
+  Proof.
+    intros r Hw. pose proof post_nolinkpar as Hnlp.
+    destruct Hpost as (d & rest' & k' & E & Hne & Erp & Hk' & Hnl' & Hstop & Htr & Hmid).
+    cbn [app] in E.
+    destruct (post_parts d rest' k' E Hk') as (Hall & Hr' & Hd).
+    rewrite E in Hw.
+    apply (Htr rest' false _ (or_introl Hne)) in Hw.
+    apply (walks_resolve_nolinkpar f rp _ Hwf Hnlp).
+    rewrite Erp, (comps_kpath_pg _ Hall). exact Hw.
+  Qed.
+
+  (** the final component is not resolved *)
+  Lemma post_final_unresolved : forall dcs b kd m,
+    cs = dcs ++ [b] ->
+    resolve f (kpath dcs) true = WFound kd (Dir m) ->
+    rp = kpath (kd ++ [b]).
+  Proof.
+    intros dcs b kd m Ecs Hres.
+    destruct Hpost as (d & rest' & k' & E & Hne & Erp & Hk' & Hnl' & Hstop & Htr & Hmid).
+    cbn [app] in E.
+    destruct (post_parts d rest' k' E Hk') as (Hall & Hr' & Hd).
+    assert (Hdcs : Forall pg dcs).
+    { pose proof Hcs as H. rewrite Ecs in H. apply Forall_app in H. exact (proj1 H). }
+    assert (Hw : walks f [] dcs true (WFound kd (Dir m))).
+    { pose proof (resolve_walks f (kpath dcs) true (kpath_pg_abs_cleaned _ Hdcs)) as H.
+      rewrite Hres, (comps_kpath_pg _ Hdcs) in H. apply H. apply definite_found. }
+    destruct (Nat.eq_dec (length rest') 1) as [Hone|Hnone].
+    - destruct rest' as [|c [|c2 r2]]; try discriminate Hone.
+      rewrite E in Ecs. apply app_inj_tail in Ecs. destruct Ecs as [Ed Ec]. subst d c.
+      pose proof (Htr [] true (WFound kd (Dir m)) (or_intror eq_refl)) as Ht. rewrite !app_nil_r in Ht. cbn [app] in Ht.
+      apply Ht in Hw. destruct Hw as (F & h & Hw & _).
+      apply walk_nolink_found in Hw.
+      + cbn [app] in Hw. subst kd. exact Erp.
+      + apply Forall_pg_plain. exact Hk'.
+      + intros pre post E0 _. exact (Hnl' pre post E0).
+    - exfalso. destruct Hstop as [Hone|Habsent]; [contradiction|].
+      destruct rest' as [|c more]; [contradiction Hne; reflexivity|].
+      destruct more as [|x more'] using rev_ind; [contradiction Hnone; reflexivity|]. clear IHmore'.
+      cbn [firstn app] in Habsent.
+      assert (Edcs : dcs = d ++ c :: more' /\ b = x).
+      { apply app_inj_tail. rewrite <- Ecs, E. rewrite <- app_assoc. reflexivity. }
+      destruct Edcs as [Edcs Ex]. subst dcs.
+      assert (Hx : c :: more' <> []) by (intro Hx; discriminate Hx).
+      pose proof (Htr (c :: more') true (WFound kd (Dir m)) (or_introl Hx)) as Ht.
+      change ([] ++ (d ++ c :: more') ++ c :: more') with ((d ++ c :: more') ++ c :: more') in Ht.
+      apply Ht in Hw. destruct Hw as (F & h & Hw & _).
+      inversion Hr' as [|c' r' Hc _]; subst c' r'.
+      apply (walk_nolink_absent f k' F h [] c more' true kd (Dir m)
+               (Forall_pg_plain _ Hk') (pg_plain _ Hc)); [| exact Habsent | exact Hw].
+      intros pre post E0 _. exact (Hnl' pre post E0).
+  Qed.
+
+  (** the shape of the result *)
+  Lemma post_lexical_tail :
+    exists done tail k',
+      cs = done ++ tail /\ tail <> [] /\ rp = kpath (k' ++ tail) /\
+      NL f k' /\
+      (length tail = 1 \/ f !! (k' ++ firstn 1 tail) = None) /\
+      (forall X fl r, (X <> [] \/ fl = true) ->
+         walks f [] (done ++ X) fl r -> walks f [] (k' ++ X) fl r).
+  Proof.
+    destruct Hpost as (d & rest' & k' & E & Hne & Erp & Hk' & Hnl' & Hstop & Htr & Hmid).
+    exists d, rest', k'. repeat split; assumption.
+  Qed.
+
+  (** once an ancestor is missing, the rest of the name is appended lexically *)
+  Lemma post_missing_tail : forall done c tail kd m,
+    cs = done ++ c :: tail ->
+    resolve f (kpath done) true = WFound kd (Dir m) ->
+    f !! (kd ++ [c]) = None ->
+    rp = kpath (kd ++ c :: tail).
+  Proof.
+    intros done c tail kd m Ecs Hres Habsent.
+    destruct Hpost as (d & rest' & k' & E & Hne & Erp & Hk' & Hnl' & Hstop & Htr & Hmid).
+    cbn [app] in E.
+    destruct (post_parts d rest' k' E Hk') as (Hall & Hr' & Hd).
+    assert (Hdone : Forall pg done).
+    { pose proof Hcs as H. rewrite Ecs in H. apply Forall_app in H. exact (proj1 H). }
+    assert (Hw : walks f [] done true (WFound kd (Dir m))).
+    { pose proof (resolve_walks f (kpath done) true (kpath_pg_abs_cleaned _ Hdone)) as H.
+      rewrite Hres, (comps_kpath_pg _ Hdone) in H. apply H. apply definite_found. }
+    assert (Hkey : forall k1, Forall pg k1 -> NL f k1 -> transfers s [] done k1 -> k1 = kd).
+    { intros k1 Hk1 Hnl1 Htr1.
+      pose proof (Htr1 [] true (WFound kd (Dir m)) (or_intror eq_refl)) as Ht.
+      rewrite !app_nil_r in Ht. cbn [app] in Ht. apply Ht in Hw.
+      destruct Hw as (F & h & Hw & _). apply walk_nolink_found in Hw.
+      - cbn [app] in Hw. symmetry. exact Hw.
+      - apply Forall_pg_plain. exact Hk1.
+      - intros pre post E0 _. exact (Hnl1 pre post E0). }
+    rewrite Ecs in E. symmetry in E. apply app_eq_app in E. destruct E as [l [[E1 E2]|[E1 E2]]].
+    - destruct l as [|y l'].
+      + rewrite app_nil_r in E1. subst d. cbn [app] in E2. subst rest'.
+        rewrite (Hkey k' Hk' Hnl' Htr) in Erp. exact Erp.
+      + exfalso. cbn [app] in E2. injection E2 as Ey E2. subst y.
+        destruct (Hmid done c l' E1) as (k1 & Hk1 & Hnl1 & Hp1 & Htr1).
+        rewrite (Hkey k1 Hk1 Hnl1 Htr1) in Hp1. exact (Hp1 Habsent).
+    - destruct l as [|y l'].
+      + rewrite app_nil_r in E1. subst d. cbn [app] in E2. subst rest'.
+        rewrite (Hkey k' Hk' Hnl' Htr) in Erp. exact Erp.
+      + exfalso. subst rest' done.
+        destruct Hstop as [Hone|Habs'].
+        { cbn [app length] in Hone. rewrite app_length in Hone. cbn [length] in Hone. lia. }
+        change (firstn 1 ((y :: l') ++ c :: tail)) with [y] in Habs'.
+        assert (Hx : y :: l' <> []) by (intro Hx; discriminate Hx).
+        pose proof (Htr (y :: l') true (WFound kd (Dir m)) (or_introl Hx)) as Ht.
+        cbn [app] in Ht. apply Ht in Hw. destruct Hw as (F & h & Hw & _).
+        inversion Hr' as [|y' r' Hy _]; subst y' r'.
+        apply (walk_nolink_absent f k' F h [] y l' true kd (Dir m)
+                 (Forall_pg_plain _ Hk') (pg_plain _ Hy)); [| exact Habs' | exact Hw].
+        intros pre post E0 _. exact (Hnl' pre post E0).
+  Qed.
+End PostFacts.
+
 Section RealPath.
   Variable s : fstate.
   Notation f := (st_fs s).
@@ -1198,14 +1360,6 @@ Section RealPath.
     injection Er as Er. subst rp'. exact Hp.
   Qed.
 
-  Lemma post_parts : forall d rest' k',
-    comps n = d ++ rest' -> Forall pg k' -> Forall pg (k' ++ rest') /\ Forall pg rest' /\ Forall pg d.
-  Proof.
-    intros d rest' k' E Hk'. pose proof comps_name_pg as H. rewrite E in H.
-    apply Forall_app in H. destruct H as [Hd Hr]. repeat split; try assumption.
-    apply Forall_app. split; assumption.
-  Qed.
-
   (** T2 (a): the result is absolute, cleaned, without a symlink among its proper ancestors *)
   Lemma rpath_nolinkpar : nolinkpar f rp.
   Proof.
@@ -1213,24 +1367,7 @@ Section RealPath.
     - pose proof Hrp as Hrp'. rewrite (rpath_root Ecs) in Hrp'. injection Hrp' as E. subst rp.
       split; [apply kpath_pg_abs_cleaned; constructor|].
       change (comps (kpath [])) with (@nil str). constructor.
-    - destruct (post_of_result Hne0)
-        as (d & rest' & k' & E & Hne & Erp & Hk' & Hnl' & Hstop & Htr & Hmid).
-      cbn [app] in E.
-      destruct (post_parts d rest' k' E Hk') as (Hall & Hr' & Hd).
-      subst rp. split; [apply kpath_pg_abs_cleaned; exact Hall|].
-      rewrite (comps_kpath_pg _ Hall). apply Forall_kprefixes. intros pre r Hr E2.
-      apply app_eq_app in E2. destruct E2 as [l [[E3 E4]|[E3 E4]]].
-      + exact (Hnl' pre l E3).
-      + destruct l as [|x l].
-        * rewrite app_nil_r in E3. subst pre. apply (Hnl' k' []). rewrite app_nil_r. reflexivity.
-        * destruct Hstop as [Hone|Habsent].
-          -- exfalso. rewrite E4 in Hone. cbn [length] in Hone. rewrite app_length in Hone.
-             destruct r; [contradiction Hr; reflexivity | cbn [length] in Hone; lia].
-          -- rewrite E4 in Habsent. change (firstn 1 ((x :: l) ++ r)) with [x] in Habsent.
-             subst pre. intros m t El.
-             pose proof (absent_below f _ l Hwf Habsent) as Hab.
-             rewrite <- app_assoc in Hab. cbn [app] in Hab.
-             norm_keys. rewrite El in Hab. discriminate Hab.
+    - exact (post_nolinkpar s Hwf (comps n) comps_name_pg rp (post_of_result Hne0)).
   Qed.
 
   (** T2 (b): [rp] names the entry the caller's name names under OS semantics
@@ -1244,18 +1381,11 @@ Section RealPath.
     destruct (nil_dec _ (comps n)) as [Ecs|Hne0].
     - pose proof Hrp as Hrp'. rewrite (rpath_root Ecs) in Hrp'. injection Hrp' as E. subst rp.
       rewrite (clean_abs_kpath n Habs), Ecs. reflexivity.
-    - pose proof rpath_nolinkpar as Hnlp.
-      destruct (post_of_result Hne0)
-        as (d & rest' & k' & E & Hne & Erp & Hk' & Hnl' & Hstop & Htr & Hmid).
-      cbn [app] in E.
-      destruct (post_parts d rest' k' E Hk') as (Hall & Hr' & Hd).
-      assert (Hacn : abs_cleaned (clean n)).
+    - assert (Hacn : abs_cleaned (clean n)).
       { split; [apply cleaned_clean | rewrite is_abs_clean; exact Habs]. }
       pose proof (resolve_walks f (clean n) false Hacn Hdef) as Hw.
-      rewrite comps_clean, E in Hw.
-      apply (Htr rest' false _ (or_introl Hne)) in Hw.
-      apply (walks_resolve_nolinkpar f rp _ Hwf Hnlp).
-      rewrite Erp, (comps_kpath_pg _ Hall). exact Hw.
+      rewrite comps_clean in Hw.
+      exact (post_same_entry s Hwf (comps n) comps_name_pg rp (post_of_result Hne0) _ Hw).
   Qed.
 
   (** T2 (c): the final component is not resolved *)
@@ -1266,39 +1396,7 @@ Section RealPath.
   Proof.
     intros dcs b kd m Ecs Hres.
     assert (Hne0 : comps n <> []) by (rewrite Ecs; intro E0; apply app_eq_nil in E0; destruct E0 as [_ E0]; discriminate E0).
-    destruct (post_of_result Hne0)
-      as (d & rest' & k' & E & Hne & Erp & Hk' & Hnl' & Hstop & Htr & Hmid).
-    cbn [app] in E.
-    destruct (post_parts d rest' k' E Hk') as (Hall & Hr' & Hd).
-    assert (Hdcs : Forall pg dcs).
-    { pose proof comps_name_pg as H. rewrite Ecs in H. apply Forall_app in H. exact (proj1 H). }
-    assert (Hw : walks f [] dcs true (WFound kd (Dir m))).
-    { pose proof (resolve_walks f (kpath dcs) true (kpath_pg_abs_cleaned _ Hdcs)) as H.
-      rewrite Hres, (comps_kpath_pg _ Hdcs) in H. apply H. apply definite_found. }
-    destruct (Nat.eq_dec (length rest') 1) as [Hone|Hnone].
-    - destruct rest' as [|c [|c2 r2]]; try discriminate Hone.
-      rewrite E in Ecs. apply app_inj_tail in Ecs. destruct Ecs as [Ed Ec]. subst d c.
-      pose proof (Htr [] true (WFound kd (Dir m)) (or_intror eq_refl)) as Ht. rewrite !app_nil_r in Ht. cbn [app] in Ht.
-      apply Ht in Hw. destruct Hw as (F & h & Hw & _).
-      apply walk_nolink_found in Hw.
-      + cbn [app] in Hw. subst kd. exact Erp.
-      + apply Forall_pg_plain. exact Hk'.
-      + intros pre post E0 _. exact (Hnl' pre post E0).
-    - exfalso. destruct Hstop as [Hone|Habsent]; [contradiction|].
-      destruct rest' as [|c more]; [contradiction Hne; reflexivity|].
-      destruct more as [|x more'] using rev_ind; [contradiction Hnone; reflexivity|]. clear IHmore'.
-      cbn [firstn app] in Habsent.
-      assert (Edcs : dcs = d ++ c :: more' /\ b = x).
-      { apply app_inj_tail. rewrite <- Ecs, E. rewrite <- app_assoc. reflexivity. }
-      destruct Edcs as [Edcs Ex]. subst dcs.
-      assert (Hx : c :: more' <> []) by (intro Hx; discriminate Hx).
-      pose proof (Htr (c :: more') true (WFound kd (Dir m)) (or_introl Hx)) as Ht.
-      change ([] ++ (d ++ c :: more') ++ c :: more') with ((d ++ c :: more') ++ c :: more') in Ht.
-      apply Ht in Hw. destruct Hw as (F & h & Hw & _).
-      inversion Hr' as [|c' r' Hc _]; subst c' r'.
-      apply (walk_nolink_absent f k' F h [] c more' true kd (Dir m)
-               (Forall_pg_plain _ Hk') (pg_plain _ Hc)); [| exact Habsent | exact Hw].
-      intros pre post E0 _. exact (Hnl' pre post E0).
+    exact (post_final_unresolved s (comps n) comps_name_pg rp (post_of_result Hne0) dcs b kd m Ecs Hres).
   Qed.
 
   (** T2 (d): the shape of the result: a resolved prefix key, equivalent under
@@ -1313,9 +1411,7 @@ Section RealPath.
       (forall X fl r, (X <> [] \/ fl = true) ->
          walks f [] (done ++ X) fl r -> walks f [] (k' ++ X) fl r).
   Proof.
-    intro Hne0. destruct (post_of_result Hne0)
-      as (d & rest' & k' & E & Hne & Erp & Hk' & Hnl' & Hstop & Htr & Hmid).
-    exists d, rest', k'. repeat split; assumption.
+    intro Hne0. exact (post_lexical_tail s (comps n) rp (post_of_result Hne0)).
   Qed.
   (** T2 (d'), in the caller's terms: once an ancestor is missing, the rest
       of the name is appended lexically to the resolved directory *)
@@ -1327,44 +1423,7 @@ Section RealPath.
   Proof.
     intros done c tail kd m Ecs Hres Habsent.
     assert (Hne0 : comps n <> []) by (rewrite Ecs; intro E0; apply app_eq_nil in E0; destruct E0 as [_ E0]; discriminate E0).
-    destruct (post_of_result Hne0)
-      as (d & rest' & k' & E & Hne & Erp & Hk' & Hnl' & Hstop & Htr & Hmid).
-    cbn [app] in E.
-    destruct (post_parts d rest' k' E Hk') as (Hall & Hr' & Hd).
-    assert (Hdone : Forall pg done).
-    { pose proof comps_name_pg as H. rewrite Ecs in H. apply Forall_app in H. exact (proj1 H). }
-    assert (Hw : walks f [] done true (WFound kd (Dir m))).
-    { pose proof (resolve_walks f (kpath done) true (kpath_pg_abs_cleaned _ Hdone)) as H.
-      rewrite Hres, (comps_kpath_pg _ Hdone) in H. apply H. apply definite_found. }
-    assert (Hkey : forall k1, Forall pg k1 -> NL f k1 -> transfers s [] done k1 -> k1 = kd).
-    { intros k1 Hk1 Hnl1 Htr1.
-      pose proof (Htr1 [] true (WFound kd (Dir m)) (or_intror eq_refl)) as Ht.
-      rewrite !app_nil_r in Ht. cbn [app] in Ht. apply Ht in Hw.
-      destruct Hw as (F & h & Hw & _). apply walk_nolink_found in Hw.
-      - cbn [app] in Hw. symmetry. exact Hw.
-      - apply Forall_pg_plain. exact Hk1.
-      - intros pre post E0 _. exact (Hnl1 pre post E0). }
-    rewrite Ecs in E. symmetry in E. apply app_eq_app in E. destruct E as [l [[E1 E2]|[E1 E2]]].
-    - destruct l as [|y l'].
-      + rewrite app_nil_r in E1. subst d. cbn [app] in E2. subst rest'.
-        rewrite (Hkey k' Hk' Hnl' Htr) in Erp. exact Erp.
-      + exfalso. cbn [app] in E2. injection E2 as Ey E2. subst y.
-        destruct (Hmid done c l' E1) as (k1 & Hk1 & Hnl1 & Hp1 & Htr1).
-        rewrite (Hkey k1 Hk1 Hnl1 Htr1) in Hp1. exact (Hp1 Habsent).
-    - destruct l as [|y l'].
-      + rewrite app_nil_r in E1. subst d. cbn [app] in E2. subst rest'.
-        rewrite (Hkey k' Hk' Hnl' Htr) in Erp. exact Erp.
-      + exfalso. subst rest' done.
-        destruct Hstop as [Hone|Habs'].
-        { cbn [app length] in Hone. rewrite app_length in Hone. cbn [length] in Hone. lia. }
-        change (firstn 1 ((y :: l') ++ c :: tail)) with [y] in Habs'.
-        assert (Hx : y :: l' <> []) by (intro Hx; discriminate Hx).
-        pose proof (Htr (y :: l') true (WFound kd (Dir m)) (or_introl Hx)) as Ht.
-        cbn [app] in Ht. apply Ht in Hw. destruct Hw as (F & h & Hw & _).
-        inversion Hr' as [|y' r' Hy _]; subst y' r'.
-        apply (walk_nolink_absent f k' F h [] y l' true kd (Dir m)
-                 (Forall_pg_plain _ Hk') (pg_plain _ Hy)); [| exact Habs' | exact Hw].
-        intros pre post E0 _. exact (Hnl' pre post E0).
+    exact (post_missing_tail s (comps n) comps_name_pg rp (post_of_result Hne0) done c tail kd m Ecs Hres Habsent).
   Qed.
 End RealPath.
 
@@ -1852,7 +1911,1111 @@ Proof.
 Qed.
 
 (* ------------------------------------------------------------------ *)
-(** * K. T4: the hypotheses are satisfiable, and each exclusion is necessary *)
+(** * K. Relative names (D20 lifted) *)
+
+(** a run of [j] leading ".." components *)
+Local Notation dds j := (repeat s_dotdot j).
+
+Lemma rev_dds : forall j, rev (dds j) = dds j.
+Proof.
+  induction j as [|j IH]; [reflexivity|]. cbn [repeat rev]. rewrite IH. symmetry. apply repeat_cons.
+Qed.
+
+Lemma Forall_eq_dds : forall j, Forall (eq s_dotdot) (dds j).
+Proof. induction j as [|j IH]; cbn [repeat]; constructor; [reflexivity | exact IH]. Qed.
+
+Lemma Forall_good_dds_pg : forall j K, Forall pg K -> Forall good_comp (dds j ++ K).
+Proof.
+  intros j K HK. apply Forall_app. split.
+  - eapply List.Forall_impl; [|apply Forall_eq_dds]. intros c E. subst c. exact good_comp_dotdot.
+  - exact (proj1 (Forall_pg_good K HK)).
+Qed.
+
+Lemma dds_app_nonnil : forall j K, K <> [] -> dds j ++ K <> [].
+Proof. intros j K HK E. apply app_eq_nil in E. exact (HK (proj2 E)). Qed.
+
+Lemma normal_dds_pg : forall j K, Forall pg K -> normal false (dds j ++ K).
+Proof.
+  intros j K HK. unfold normal. rewrite rev_app_distr, rev_dds.
+  apply Forall_rev_iff in HK. induction HK as [|c stk Hc Hstk IH].
+  - cbn [app]. apply stk_ok_all_dd. apply Forall_eq_dds.
+  - cbn [app]. apply so_push; [exact (proj1 Hc) | exact (proj2 Hc) | exact IH].
+Qed.
+
+Lemma comps_rel_render : forall j K, Forall pg K -> comps (render false (dds j ++ K)) = dds j ++ K.
+Proof. intros j K HK. apply comps_render. apply normal_dds_pg. exact HK. Qed.
+
+Lemma cleaned_rel_render : forall j K, Forall pg K -> cleaned (render false (dds j ++ K)).
+Proof. intros j K HK. apply cleaned_render. apply normal_dds_pg. exact HK. Qed.
+
+Lemma is_abs_rel_render : forall j K, Forall pg K -> is_abs (render false (dds j ++ K)) = false.
+Proof. intros j K HK. apply is_abs_render. apply Forall_good_dds_pg. exact HK. Qed.
+
+Lemma rel_render_nonempty : forall j K, Forall pg K -> render false (dds j ++ K) <> [].
+Proof. intros j K HK. apply cleaned_nonempty. apply cleaned_rel_render. exact HK. Qed.
+
+Lemma norm_false_dds : forall j cs i, norm false (dds j ++ cs) (dds i) = norm false cs (dds (i + j)).
+Proof.
+  induction j as [|j IH]; intros cs i.
+  - rewrite Nat.add_0_r. reflexivity.
+  - cbn [repeat app]. rewrite norm_cons.
+    change (str_eqb s_dotdot [] || str_eqb s_dotdot s_dot) with false. cbv iota. rewrite str_eqb_refl.
+    destruct i as [|i].
+    + cbn [repeat]. change [s_dotdot] with (dds 1). rewrite IH. reflexivity.
+    + cbn [repeat]. rewrite str_eqb_refl.
+      change (s_dotdot :: s_dotdot :: dds i) with (dds (S (S i))). rewrite IH.
+      f_equal. f_equal. lia.
+Qed.
+
+Lemma norm_true_dds : forall j cs, norm true (dds j ++ cs) [] = norm true cs [].
+Proof.
+  induction j as [|j IH]; intro cs; [reflexivity|].
+  cbn [repeat app]. rewrite norm_cons.
+  change (str_eqb s_dotdot [] || str_eqb s_dotdot s_dot) with false. cbv iota. rewrite str_eqb_refl.
+  apply IH.
+Qed.
+
+(** normalising a relative path on top of a stack [dds j ++ K] (reversed):
+    the leading ".." run can only grow, the rest is the rooted normalisation *)
+Lemma norm_rel_rooted : forall cs stk j,
+  Forall nosep cs -> Forall pg stk ->
+  exists j', norm false cs (stk ++ dds j) = dds j' ++ norm true cs stk.
+Proof.
+  induction cs as [|c cs IH]; intros stk j Hns Hstk.
+  - exists j. cbn [norm]. rewrite rev_app_distr, rev_dds. reflexivity.
+  - inversion Hns as [|c' cs' Hc Hcs]; subst c' cs'. rewrite !norm_cons.
+    destruct (str_eqb c [] || str_eqb c s_dot) eqn:Et; [apply IH; assumption|].
+    apply orb_false_elim in Et. destruct Et as [Et1 Et2].
+    destruct (str_eqb c s_dotdot) eqn:Ed.
+    + apply str_eqb_eq in Ed. subst c. destruct stk as [|t stk'].
+      * cbn [app]. destruct j as [|j].
+        -- cbn [repeat]. exact (IH [] 1 Hcs Hstk).
+        -- cbn [repeat]. rewrite str_eqb_refl. exact (IH [] (S (S j)) Hcs Hstk).
+      * cbn [app]. inversion Hstk as [|t' s' Ht Hstk']; subst t' s'.
+        destruct Ht as [_ Ht]. apply str_eqb_neq in Ht. rewrite Ht.
+        exact (IH stk' j Hcs Hstk').
+    + apply (IH (c :: stk) j Hcs). constructor; [|exact Hstk].
+      apply str_eqb_neq in Et1, Et2, Ed. split; [|exact Ed]. repeat split; assumption.
+Qed.
+
+(** the string of a key in one of the two modes of the loop: absolute, or
+    relative to the working directory (the root) with [j] leading ".." *)
+Definition rk (md : option nat) (K : key) : str :=
+  match md with None => kpath K | Some j => render false (dds j ++ K) end.
+
+Lemma rk_nonempty : forall md K, Forall pg K -> rk md K <> [].
+Proof. intros [j|] K HK; [apply rel_render_nonempty; exact HK | apply kpath_nonempty]. Qed.
+
+Lemma rk_cleaned : forall md K, Forall pg K -> cleaned (rk md K).
+Proof.
+  intros [j|] K HK; [apply cleaned_rel_render; exact HK|].
+  exact (proj1 (kpath_pg_abs_cleaned K HK)).
+Qed.
+
+Lemma rk_app : forall md K pre,
+  K <> [] -> pre <> [] -> rk md (K ++ pre) = rk md K ++ sep :: join_sep pre.
+Proof.
+  intros [j|] K pre HK Hpre; [|apply kpath_app; assumption].
+  cbn [rk]. rewrite app_assoc.
+  rewrite !render_rel_nonnil.
+  - apply join_sep_app; [apply dds_app_nonnil; exact HK | exact Hpre].
+  - apply dds_app_nonnil. exact HK.
+  - intro E. apply app_eq_nil in E. exact (Hpre (proj2 E)).
+Qed.
+
+Lemma trim_rk : forall md K pre,
+  K <> [] -> pre <> [] -> trim_prefix (rk md (K ++ pre)) (rk md K) = sep :: join_sep pre.
+Proof. intros md K pre HK Hpre. rewrite rk_app by assumption. apply trim_prefix_app. Qed.
+
+(** ** the kernel walk of a relative path starts at the root, where ".." stays *)
+
+Lemma walk_dds_root : forall j F f h cs fl,
+  walk (j + F) f h [] (dds j ++ cs) fl = walk F f h [] cs fl.
+Proof.
+  induction j as [|j IH]; intros F f h cs fl; [reflexivity|].
+  cbn [repeat app plus]. rewrite walk_S.
+  change (trivial_comp s_dotdot) with false. cbv iota. rewrite str_eqb_refl.
+  change (parent_key []) with (@nil str). apply IH.
+Qed.
+
+Lemma join_sep_dds_length : forall j K, j + length (join_sep K) <= length (join_sep (dds j ++ K)).
+Proof.
+  induction j as [|j IH]; intro K; [reflexivity|].
+  cbn [repeat app]. destruct (dds j ++ K) as [|x r] eqn:E.
+  - apply app_eq_nil in E. destruct E as [E1 E2]. subst K. destruct j; [|discriminate E1].
+    cbn. lia.
+  - rewrite join_sep_cons by discriminate. rewrite <- E. specialize (IH K).
+    rewrite app_length. cbn [length]. unfold s_dotdot at 1. cbn [length]. lia.
+Qed.
+
+Lemma resolve_kpath_eq : forall f K fl,
+  Forall pg K -> K <> [] ->
+  resolve f (kpath K) fl = walk (walk_fuel + length (join_sep K)) f 0 [] K fl.
+Proof.
+  intros f K fl HK Hne. unfold kpath. rewrite render_abs. unfold resolve.
+  change (split_sep (sep :: join_sep K)) with ([] :: split_sep (join_sep K)).
+  cbn [length]. rewrite Nat.add_succ_r. rewrite walk_trivial by reflexivity.
+  rewrite split_join; [reflexivity | exact Hne |].
+  apply Forall_good_nosep. exact (proj1 (Forall_pg_good K HK)).
+Qed.
+
+Lemma resolve_rel_eq : forall f j K fl,
+  Forall pg K -> K <> [] ->
+  resolve f (render false (dds j ++ K)) fl =
+    walk (walk_fuel + length (join_sep (dds j ++ K)) - j) f 0 [] K fl.
+Proof.
+  intros f j K fl HK Hne.
+  pose proof (rel_render_nonempty j K HK) as Hn.
+  rewrite render_rel_nonnil in * by (apply dds_app_nonnil; exact Hne).
+  unfold resolve. destruct (join_sep (dds j ++ K)) as [|x p] eqn:E; [contradiction Hn; reflexivity|].
+  rewrite <- E. rewrite split_join.
+  - pose proof (join_sep_dds_length j K) as Hl.
+    replace (walk_fuel + length (join_sep (dds j ++ K)))
+      with (j + (walk_fuel + length (join_sep (dds j ++ K)) - j)) at 1 by lia.
+    apply walk_dds_root.
+  - apply dds_app_nonnil. exact Hne.
+  - apply Forall_good_nosep. apply Forall_good_dds_pg. exact HK.
+Qed.
+
+(** a relative path names what the absolute path of the same key names *)
+Lemma resolve_rk : forall f md K fl,
+  Forall pg K -> K <> [] -> definite (resolve f (kpath K) fl) ->
+  resolve f (rk md K) fl = resolve f (kpath K) fl.
+Proof.
+  intros f [j|] K fl HK Hne Hdef; [|reflexivity].
+  cbn [rk]. rewrite (resolve_rel_eq f j K fl HK Hne).
+  rewrite (resolve_kpath_eq f K fl HK Hne) in *.
+  pose proof (join_sep_dds_length j K) as Hl.
+  eapply walk_mono; [reflexivity | exact Hdef | lia | lia].
+Qed.
+
+Lemma resolve_rk_walks : forall f md K fl,
+  Forall pg K -> K <> [] -> definite (resolve f (rk md K) fl) ->
+  walks f [] K fl (resolve f (rk md K) fl).
+Proof.
+  intros f [j|] K fl HK Hne Hdef; cbn [rk] in *.
+  - rewrite (resolve_rel_eq f j K fl HK Hne) in *. eexists _, 0. split; [reflexivity | exact Hdef].
+  - rewrite (resolve_kpath_eq f K fl HK Hne) in *. eexists _, 0. split; [reflexivity | exact Hdef].
+Qed.
+
+Lemma fs_lstat_of_found : forall s p k n,
+  resolve (st_fs s) p false = WFound k n -> fs_lstat s p = Ok (info_of (base p) n).
+Proof. intros s p k n E. unfold fs_lstat. rewrite E. reflexivity. Qed.
+
+Lemma fs_readlink_of_found : forall s p k m t,
+  resolve (st_fs s) p false = WFound k (Link m t) -> fs_readlink s p = Ok t.
+Proof. intros s p k m t E. unfold fs_readlink. rewrite E. reflexivity. Qed.
+
+Lemma fs_lstat_err_transfer : forall s p p' e,
+  resolve (st_fs s) p false = resolve (st_fs s) p' false ->
+  fs_lstat s p' = Err e -> fs_lstat s p = Err e.
+Proof.
+  intros s p p' e E. unfold fs_lstat. rewrite E.
+  generalize (resolve (st_fs s) p' false). intros r H.
+  destruct r; [discriminate H | exact H | exact H].
+Qed.
+
+(** [Lstat] / [Readlink] of a key below link-free parents, in either mode *)
+Lemma lstat_key_g : forall s md k c,
+  wf (st_fs s) -> Forall pg k -> pg c -> NL (st_fs s) k ->
+  match st_fs s !! (k ++ [c]) with
+  | Some n => (exists fi, fs_lstat s (rk md (k ++ [c])) = Ok fi /\ fi_kind fi = node_kind n) /\
+              (forall m t, n = Link m t -> fs_readlink s (rk md (k ++ [c])) = Ok t)
+  | None => exists e, fs_lstat s (rk md (k ++ [c])) = Err e /\ is_not_found e = true
+  end.
+Proof.
+  intros s md k c Hwf Hk Hc Hnl.
+  assert (Hkc : Forall pg (k ++ [c])) by (apply Forall_app; split; [exact Hk | constructor; [exact Hc | constructor]]).
+  assert (Hknil : k ++ [c] <> []) by (intro E0; apply app_eq_nil in E0; destruct E0 as [_ E0]; discriminate E0).
+  pose proof (nolinkpar_of_NL (st_fs s) k c Hk Hc Hnl) as Hnlp.
+  pose proof (comps_kpath_pg _ Hkc) as Ec.
+  pose proof (resolve_rk (st_fs s) md _ false Hkc Hknil
+                (resolve_nolinkpar_definite _ _ Hwf Hnlp)) as Er.
+  pose proof (lstat_key s k c Hwf Hk Hc Hnl) as HL.
+  destruct (st_fs s !! (k ++ [c])) as [n|] eqn:El.
+  - assert (El' : st_fs s !! comps (kpath (k ++ [c])) = Some n) by (rewrite Ec; exact El).
+    pose proof (fs_lstat_nolinkpar_present (st_fs s) _ _ Hwf Hnlp El') as Hdirect.
+    pose proof (resolve_direct_found_nofollow _ _ _ Hdirect El') as Hres.
+    rewrite <- Er in Hres. split.
+    + eexists. split; [exact (fs_lstat_of_found s _ _ _ Hres) | reflexivity].
+    + intros m t En. subst n. exact (fs_readlink_of_found s _ _ _ _ Hres).
+  - destruct HL as (e & HLe & Hnf). exists e. split; [|exact Hnf].
+    exact (fs_lstat_err_transfer s _ _ e Er HLe).
+Qed.
+
+(** ** [toAbsSymlink] and [filepath.Join] in either mode *)
+
+Lemma is_abs_app_ne : forall a b, a <> [] -> is_abs (a ++ b) = is_abs a.
+Proof. intros [|x a] b H; [contradiction H; reflexivity | reflexivity]. Qed.
+
+Lemma dir_rel_snoc : forall cs c,
+  normal false cs -> pg c -> dir (render false (cs ++ [c])) = render false cs.
+Proof.
+  intros cs c Hn Hc. pose proof (normal_good _ _ Hn) as Hg.
+  assert (Hns : nosep c) by exact (good_comp_nosep c (proj1 Hc)).
+  destruct cs as [|x cs'].
+  - cbn [app render join_sep]. unfold dir. rewrite (upto_last_sep_nosep c Hns). reflexivity.
+  - remember (x :: cs') as cs eqn:Ecs.
+    assert (Hne : cs <> []) by (rewrite Ecs; discriminate).
+    rewrite render_rel_nonnil by (intro E; apply app_eq_nil in E; exact (Hne (proj1 E))).
+    rewrite (render_rel_nonnil cs Hne).
+    rewrite (join_sep_snoc cs c Hne). unfold dir. rewrite (upto_last_sep_app_sep _ c Hns).
+    assert (Ha : is_abs (join_sep cs ++ [sep]) = false).
+    { rewrite is_abs_app_ne by (apply join_sep_nonempty; assumption). apply is_abs_join; assumption. }
+    unfold clean, comps. rewrite Ha.
+    rewrite (split_sep_app_sep (join_sep cs) []).
+    rewrite split_join by (try exact Hne; apply Forall_good_nosep; exact Hg).
+    change (split_sep []) with [@nil N].
+    rewrite norm_app. rewrite (norm_normal false cs Hn).
+    rewrite norm_cons. change (str_eqb [] [] || str_eqb [] s_dot) with true. cbv iota.
+    cbn [norm]. rewrite rev_involutive. apply render_rel_nonnil. exact Hne.
+Qed.
+
+(** [l] is the string of the key [K] in mode [md]; an absolute one need not
+    be clean (an unclean absolute link target is kept verbatim) *)
+Definition repr (md : option nat) (K : key) (l : str) : Prop :=
+  match md with
+  | None => is_abs l = true /\ comps l = K
+  | Some j => l = render false (dds j ++ K)
+  end.
+
+Lemma tas_repr : forall md k c t,
+  Forall pg k -> pg c ->
+  exists md', repr md' (lexkey k t) (to_abs_symlink t (rk md (k ++ [c]))).
+Proof.
+  intros md k c t Hk Hc. destruct md as [j|].
+  2:{ exists None. exact (to_abs_symlink_key k c t Hk Hc). }
+  unfold to_abs_symlink, lexkey. destruct (is_abs t) eqn:Ha.
+  - exists None. split; [exact Ha|]. unfold comps. rewrite Ha. reflexivity.
+  - cbn [rk]. rewrite app_assoc.
+    rewrite (dir_rel_snoc _ c (normal_dds_pg j k Hk) Hc).
+    pose proof (rel_render_nonempty j k Hk) as Hdn.
+    pose proof (is_abs_rel_render j k Hk) as Hda.
+    pose proof (comps_rel_render j k Hk) as Hdc.
+    remember (render false (dds j ++ k)) as d eqn:Ed.
+    assert (E : join2 d t = clean (d ++ sep :: t)).
+    { unfold join2. destruct d; [contradiction Hdn; reflexivity | reflexivity]. }
+    rewrite E.
+    destruct (norm_rel_rooted (split_sep t) (rev k) j (split_sep_nosep t)
+                (proj2 (Forall_rev_iff _ pg k) Hk)) as [j' Ej].
+    exists (Some j'). cbn [repr]. unfold clean.
+    rewrite (is_abs_app_ne d _ Hdn), Hda. f_equal.
+    unfold comps. rewrite (is_abs_app_ne d _ Hdn), Hda.
+    rewrite split_sep_app_sep, norm_app.
+    assert (Ed' : norm false (split_sep d) [] = dds j ++ k).
+    { rewrite <- Hdc. unfold comps. rewrite Hda. reflexivity. }
+    rewrite Ed'. rewrite rev_app_distr, rev_dds. exact Ej.
+Qed.
+
+Lemma join2_repr_tail : forall md K l pre,
+  repr md K l -> Forall pg K -> Forall pg pre -> pre <> [] ->
+  join2 l (sep :: join_sep pre) = rk md (K ++ pre).
+Proof.
+  intros [j|] K l pre Hr HK Hpre Hne; cbn [repr] in Hr.
+  - subst l. cbn [rk].
+    pose proof (rel_render_nonempty j K HK) as Hdn.
+    pose proof (is_abs_rel_render j K HK) as Hda.
+    pose proof (comps_rel_render j K HK) as Hdc.
+    remember (render false (dds j ++ K)) as d eqn:Ed.
+    assert (E : join2 d (sep :: join_sep pre) = clean (d ++ sep :: sep :: join_sep pre)).
+    { unfold join2. destruct d; [contradiction Hdn; reflexivity | reflexivity]. }
+    rewrite E. unfold clean. rewrite (is_abs_app_ne d _ Hdn), Hda. f_equal.
+    unfold comps. rewrite (is_abs_app_ne d _ Hdn), Hda.
+    rewrite split_sep_app_sep.
+    change (split_sep (sep :: join_sep pre)) with ([] :: split_sep (join_sep pre)).
+    rewrite split_join; [| exact Hne |].
+    2:{ apply Forall_good_nosep. exact (proj1 (Forall_pg_good _ Hpre)). }
+    rewrite norm_app.
+    assert (Ed' : norm false (split_sep d) [] = dds j ++ K).
+    { rewrite <- Hdc. unfold comps. rewrite Hda. reflexivity. }
+    rewrite Ed'. rewrite norm_cons.
+    change (str_eqb [] [] || str_eqb [] s_dot) with true. cbv iota.
+    rewrite norm_pg by exact Hpre. rewrite rev_involutive. rewrite app_assoc. reflexivity.
+  - destruct Hr as [Ha Ec]. cbn [rk]. rewrite (join2_abs_tail l pre Ha Hpre Hne), Ec. reflexivity.
+Qed.
+
+Lemma In_cands_rk : forall md K pre post,
+  Forall pg K -> K = pre ++ post -> pre <> [] -> In (rk md pre) (cands (rk md K)).
+Proof.
+  intros [j|] K pre post HK E Hne.
+  - cbn [rk]. rewrite (cands_render false _ (Forall_good_dds_pg j K HK)).
+    assert (HKne : K <> []) by (rewrite E; intro E0; apply app_eq_nil in E0; exact (Hne (proj1 E0))).
+    rewrite pchain_rel by (apply dds_app_nonnil; exact HKne).
+    apply in_map. apply in_prefixes. split; [apply dds_app_nonnil; exact Hne|].
+    exists post. rewrite E, app_assoc. reflexivity.
+  - cbn [rk]. rewrite (cands_kpath K HK). right. apply in_map. apply in_prefixes.
+    split; [exact Hne|]. exists post. exact E.
+Qed.
+
+Lemma NL_of_lstat_g : forall s md lk,
+  wf (st_fs s) -> Forall pg lk ->
+  (forall pre post, lk = pre ++ post -> pre <> [] -> lstat_is_link s (rk md pre) = false) ->
+  NL (st_fs s) lk.
+Proof.
+  intros s md lk Hwf. induction lk as [|x lk' IH] using rev_ind; intros Hpg Hls.
+  - exact (NL_root s Hwf).
+  - apply Forall_app in Hpg. destruct Hpg as [Hpg' Hx].
+    inversion Hx as [|x' l' Hxp _]; subst x' l'.
+    assert (Hnl' : NL (st_fs s) lk').
+    { apply IH; [exact Hpg' |].
+      intros pre post E Hne. apply (Hls pre (post ++ [x])); [|exact Hne]. rewrite E, app_assoc. reflexivity. }
+    apply NL_snoc; [exact Hnl'|].
+    pose proof (lstat_key_g s md lk' x Hwf Hpg' Hxp Hnl') as HL.
+    assert (Hl : lstat_is_link s (rk md (lk' ++ [x])) = false).
+    { apply (Hls (lk' ++ [x]) []); [rewrite app_nil_r; reflexivity|].
+      intro E0. apply app_eq_nil in E0. destruct E0 as [_ E0]. discriminate E0. }
+    intros m t E. norm_keys. rewrite E in HL. destruct HL as [(fi & HL & Hkind) _].
+    rewrite (lstat_is_link_ok s _ _ HL), Hkind in Hl. discriminate Hl.
+Qed.
+
+(** ** the invariant of the resolution loop, in either mode.  The mode of the
+    not yet visited candidates is [md]; it changes to absolute when an
+    absolute link target is met, and a relative target that climbs above the
+    working directory adds leading ".." (which the kernel clamps at the root) *)
+Section LoopG.
+  Variable s : fstate.
+  Notation f := (st_fs s).
+  Hypothesis Hwf : wf f.
+  Hypothesis Htc : targets_clean f.
+  Variable final : str.
+
+  Lemma rloop_inv_g : forall rest k md acc g,
+    rest <> [] -> Forall pg rest ->
+    Forall pg k -> NL f k ->
+    Forall2 (fun x pre => g x = rk md (k ++ pre)) acc (prefixes_from [] rest) ->
+    g final = rk md (k ++ rest) ->
+    through_link s acc g = false ->
+    exists md' K o, rloop s acc g final = Ok (rk md' K, o) /\
+                    Forall pg K /\ K <> [] /\ post s k rest (kpath K).
+  Proof.
+    induction rest as [|c rest1 IH]; intros k md acc g Hne Hrest Hk Hnl Hacc Hfin Htl.
+    - contradiction Hne. reflexivity.
+    - inversion Hrest as [|c' r' Hc Hrest1]; subst c' r'.
+      rewrite prefixes_from_nil_cons in Hacc.
+      inversion Hacc as [|q pre0 acc1 pres Hq Hacc1]; subst.
+      apply Forall2_map_r' in Hacc1.
+      assert (Hkc : Forall pg (k ++ [c])) by (apply Forall_app; split; [exact Hk | constructor; [exact Hc | constructor]]).
+      assert (Hkall : Forall pg (k ++ c :: rest1)) by (apply Forall_app; split; [exact Hk | exact Hrest]).
+      pose proof (lstat_key_g s md k c Hwf Hk Hc Hnl) as HL.
+      assert (Hacc1' : Forall2 (fun x pre => g x = rk md ((k ++ [c]) ++ pre)) acc1 (prefixes_from [] rest1)).
+      { eapply Forall2_impl_In_r; [|exact Hacc1]. intros x y _ E. cbv beta in E.
+        rewrite E, <- app_assoc. reflexivity. }
+      assert (Hfin1 : g final = rk md ((k ++ [c]) ++ rest1)) by (rewrite Hfin, <- app_assoc; reflexivity).
+      assert (Hknil : k ++ [c] <> []) by (intro E0; apply app_eq_nil in E0; destruct E0 as [_ E0]; discriminate E0).
+      assert (Hkallnil : k ++ c :: rest1 <> []) by (intro E0; apply app_eq_nil in E0; destruct E0 as [_ E0]; discriminate E0).
+      destruct (f !! (k ++ [c])) as [n|] eqn:El.
+      + (* the candidate exists *)
+        destruct HL as [(fi & HL & Hkind) Hrl].
+        assert (Hlast : rest1 = [] -> acc1 = [] /\ post s k [c] (kpath (k ++ [c]))).
+        { intro E. subst rest1. inversion Hacc1; subst. split; [reflexivity|].
+          apply post_stop; try assumption; try discriminate. left. reflexivity. }
+        rewrite <- Hq in HL, Hrl.
+        destruct (match n with Link _ _ => true | _ => false end) eqn:Ekind.
+        * (* a symlink *)
+          destruct n as [m|m dt|m t]; cbn in Ekind; try discriminate Ekind.
+          specialize (Hrl m t eq_refl). cbn [node_kind] in Hkind.
+          rewrite (rloop_step_link s q acc1 g final _ t HL Hkind Hrl).
+          destruct rest1 as [|c1 rest2].
+          -- destruct (Hlast eq_refl) as [E Hp]. subst acc1. rewrite Hq.
+             exists md, (k ++ [c]). eexists. split; [reflexivity|]. split; [exact Hkc|]. split; [exact Hknil | exact Hp].
+          -- destruct acc1 as [|q1 acc2]; [inversion Hacc1|].
+             rewrite (through_link_step_link s q q1 acc2 g _ t HL Hkind Hrl) in Htl.
+             apply orb_false_elim in Htl. destruct Htl as [Hex Htl].
+             rewrite Hq in *. clear HL Hrl.
+             destruct (tas_repr md k c t Hk Hc) as [md' Hrepr].
+             pose proof (lexkey_pg k t Hk) as Hlk.
+             remember (to_abs_symlink t (rk md (k ++ [c]))) as l eqn:El_.
+             assert (Elrk : l = rk md' (lexkey k t)).
+             { destruct md' as [j'|]; cbn [repr] in Hrepr; [exact Hrepr|].
+               destruct Hrepr as [Ha Ecomps]. cbn [rk]. rewrite <- Ecomps. symmetry.
+               apply kpath_comps. split; [|exact Ha]. rewrite El_.
+               apply to_abs_symlink_cleaned. intros _. exact (Htc _ _ _ El). }
+             assert (Hnllk : NL f (lexkey k t)).
+             { apply (NL_of_lstat_g s md' _ Hwf Hlk).
+               intros pre post E Hpne. apply (existsb_false_In _ _ _ _ Hex).
+               rewrite Elrk. exact (In_cands_rk md' _ pre post Hlk E Hpne). }
+             assert (Hg' : forall x pre, pre <> [] -> Forall pg pre ->
+                       g x = rk md ((k ++ [c]) ++ pre) ->
+                       join2 l (trim_prefix (g x) (rk md (k ++ [c]))) = rk md' (lexkey k t ++ pre)).
+             { intros x pre Hpne Hppg E. rewrite E.
+               rewrite (trim_rk md _ _ Hknil Hpne).
+               exact (join2_repr_tail md' _ l pre Hrepr Hlk Hppg Hpne). }
+             destruct (IH (lexkey k t) md' (q1 :: acc2)
+                         (fun x => join2 l (trim_prefix (g x) (rk md (k ++ [c]))))
+                         ltac:(discriminate) Hrest1 Hlk
+                         Hnllk) as (md2 & K & o & Er & HK & HKne & Hp).
+             ++ eapply Forall2_impl_In_r; [|exact Hacc1']. intros x y Hy E.
+                apply in_prefixes in Hy. destruct Hy as [Hyne [l2 El2]].
+                apply Hg'; [exact Hyne | | exact E].
+                rewrite El2 in Hrest1. apply Forall_app in Hrest1. exact (proj1 Hrest1).
+             ++ apply Hg'; [discriminate | exact Hrest1 | exact Hfin1].
+             ++ exact Htl.
+             ++ exists md2, K, o. split; [exact Er|]. split; [exact HK|]. split; [exact HKne|].
+                apply (post_cons_link s Hwf Htc k c _ _ m t Hk Hnl Hc El Hp).
+        * (* a directory or a regular file *)
+          assert (Hnk : fi_kind fi <> KLink).
+          { rewrite Hkind. destruct n; cbn in Ekind; try discriminate Ekind; cbn; discriminate. }
+          assert (Hnlc : not_link_at f (k ++ [c])).
+          { intros m' t' E. norm_keys. rewrite El in E. injection E as E. subst n. cbn in Ekind. discriminate Ekind. }
+          rewrite (rloop_step_plain s q acc1 g final _ HL Hnk).
+          destruct rest1 as [|c1 rest2].
+          -- destruct (Hlast eq_refl) as [E Hp]. subst acc1. rewrite Hq.
+             exists md, (k ++ [c]). eexists. split; [reflexivity|]. split; [exact Hkc|]. split; [exact Hknil | exact Hp].
+          -- destruct acc1 as [|q1 acc2]; [inversion Hacc1|].
+             rewrite (through_link_step_plain s q _ g _ HL Hnk) in Htl.
+             destruct (IH (k ++ [c]) md (q1 :: acc2) g ltac:(discriminate) Hrest1 Hkc
+                         (NL_snoc f k c Hnl Hnlc) Hacc1' Hfin1 Htl)
+               as (md2 & K & o & Er & HK & HKne & Hp).
+             exists md2, K, o. split; [exact Er|]. split; [exact HK|]. split; [exact HKne|].
+             apply post_cons_plain; try assumption. norm_keys. rewrite El. discriminate.
+      + (* the candidate is missing: lexical tail *)
+        destruct HL as (e & HLe & Hnf). rewrite <- Hq in HLe.
+        rewrite (rloop_step_notfound s q acc1 g final e HLe Hnf). rewrite Hfin.
+        exists md, (k ++ c :: rest1). eexists. split; [reflexivity|]. split; [exact Hkall|]. split; [exact Hkallnil|].
+        apply post_stop; try assumption. right. exact El.
+  Qed.
+End LoopG.
+
+Lemma rloop_no_efuel_g : forall s T final rest K md acc g,
+  links_bounded (st_fs s) T ->
+  rest <> [] -> Forall pg rest -> Forall pg K ->
+  Forall2 (fun x pre => g x = rk md (K ++ pre)) acc (prefixes_from [] rest) ->
+  g final = rk md (K ++ rest) ->
+  40 * T + 2 <= walk_fuel ->
+  rloop s acc g final <> Err EFUEL.
+Proof.
+  intros s T final rest. induction rest as [|c rest1 IH]; intros K md acc g HT Hne Hrest HK Hacc Hfin Hb.
+  - contradiction Hne. reflexivity.
+  - inversion Hrest as [|c' r' Hc Hrest1]; subst c' r'.
+    rewrite prefixes_from_nil_cons in Hacc.
+    inversion Hacc as [|q pre0 acc1 pres Hq Hacc1]; subst.
+    apply Forall2_map_r' in Hacc1.
+    assert (HKc : Forall pg (K ++ [c])) by (apply Forall_app; split; [exact HK | constructor; [exact Hc | constructor]]).
+    assert (Hknil : K ++ [c] <> []) by (intro E0; apply app_eq_nil in E0; destruct E0 as [_ E0]; discriminate E0).
+    assert (Hres : resolve (st_fs s) (rk md (K ++ [c])) false <> WErr EFUEL).
+    { exact (resolve_no_efuel _ _ false T HT Hb). }
+    assert (Hacc1' : Forall2 (fun x pre => g x = rk md ((K ++ [c]) ++ pre)) acc1 (prefixes_from [] rest1)).
+    { eapply Forall2_impl_In_r; [|exact Hacc1]. intros x y _ E. cbv beta in E.
+      rewrite E, <- app_assoc. reflexivity. }
+    assert (Hfin1 : g final = rk md ((K ++ [c]) ++ rest1)) by (rewrite Hfin, <- app_assoc; reflexivity).
+    rewrite <- Hq in Hres.
+    destruct (fs_lstat s (g q)) as [fi|e] eqn:HL.
+    + destruct (match fi_kind fi with KLink => true | _ => false end) eqn:Ek.
+      * assert (Hk : fi_kind fi = KLink) by (destruct (fi_kind fi); try discriminate Ek; reflexivity).
+        destruct (fs_readlink s (g q)) as [t|e] eqn:Hrl.
+        -- rewrite (rloop_step_link s q acc1 g final fi t HL Hk Hrl).
+           destruct rest1 as [|c1 rest2]; [inversion Hacc1; subst; discriminate|].
+           destruct acc1 as [|q1 acc2]; [inversion Hacc1|].
+           rewrite Hq.
+           destruct (tas_repr md K c t HK Hc) as [md' Hrepr].
+           pose proof (lexkey_pg K t HK) as Hlk.
+           apply (IH (lexkey K t) md'); try assumption.
+           ++ discriminate.
+           ++ eapply Forall2_impl_In_r; [|exact Hacc1']. intros x y Hy E.
+              apply in_prefixes in Hy. destruct Hy as [Hyne [l2 El2]].
+              rewrite E. rewrite (trim_rk md _ _ Hknil Hyne).
+              apply (join2_repr_tail md' _ _ y Hrepr Hlk); [|exact Hyne].
+              rewrite El2 in Hrest1. apply Forall_app in Hrest1. exact (proj1 Hrest1).
+           ++ assert (Hne1 : c1 :: rest2 <> []) by (intro Hx; discriminate Hx).
+              rewrite Hfin1. rewrite (trim_rk md _ _ Hknil Hne1).
+              exact (join2_repr_tail md' _ _ _ Hrepr Hlk Hrest1 Hne1).
+        -- cbn [rloop]. rewrite HL, Hk, Hrl. intro E. injection E as E. subst e.
+           apply Hres. apply fs_readlink_efuel. exact Hrl.
+      * assert (Hk : fi_kind fi <> KLink) by (intro E; rewrite E in Ek; discriminate Ek).
+        rewrite (rloop_step_plain s q acc1 g final fi HL Hk).
+        destruct rest1 as [|c1 rest2]; [inversion Hacc1; subst; discriminate|].
+        destruct acc1 as [|q1 acc2]; [inversion Hacc1|].
+        apply (IH (K ++ [c]) md); try assumption.
+        discriminate.
+    + cbn [rloop]. rewrite HL. destruct (is_not_found e) eqn:Enf; [discriminate|].
+      intro E. injection E as E. subst e. apply Hres. apply fs_lstat_efuel. exact HL.
+Qed.
+
+(** ** [real_path] on a relative name *)
+
+(** the components of [n] read from the working directory, which is the root
+    (leading ".." are clamped there) *)
+Definition rcomps (n : str) : list str := comps (sep :: n).
+
+Lemma rcomps_eq : forall n, rcomps n = norm true (split_sep n) [].
+Proof.
+  intro n. unfold rcomps, comps. cbn [is_abs]. rewrite eqb_sep_sep.
+  change (split_sep (sep :: n)) with ([] :: split_sep n). rewrite norm_cons.
+  change (str_eqb [] [] || str_eqb [] s_dot) with true. reflexivity.
+Qed.
+
+Lemma rcomps_pg : forall n, Forall pg (rcomps n).
+Proof. intro n. apply comps_abs_pg. cbn [is_abs]. apply eqb_sep_sep. Qed.
+
+Lemma rcomps_abs : forall n, is_abs n = true -> rcomps n = comps n.
+Proof. intros n H. rewrite rcomps_eq. unfold comps. rewrite H. reflexivity. Qed.
+
+Lemma rel_comps_shape : forall n, is_abs n = false -> exists j0, comps n = dds j0 ++ rcomps n.
+Proof.
+  intros n H. unfold comps. rewrite H.
+  destruct (norm_rel_rooted (split_sep n) [] 0 (split_sep_nosep n) (Forall_nil _)) as [j E].
+  exists j. rewrite rcomps_eq. exact E.
+Qed.
+
+Lemma clean_sep_abs : forall p, abs_cleaned p -> clean (sep :: p) = p.
+Proof.
+  intros p Hac. unfold clean. fold (rcomps p). rewrite (rcomps_abs p (proj2 Hac)).
+  cbn [is_abs]. rewrite eqb_sep_sep. apply (kpath_comps p Hac).
+Qed.
+
+(** a result string in either mode, read from the root, is the path of its key *)
+Lemma clean_sep_rk : forall md K, Forall pg K -> clean (sep :: rk md K) = kpath K.
+Proof.
+  intros md K HK. unfold clean. fold (rcomps (rk md K)). cbn [is_abs]. rewrite eqb_sep_sep.
+  unfold kpath. f_equal. rewrite rcomps_eq. destruct md as [j|]; cbn [rk].
+  - destruct (nil_dec _ (dds j ++ K)) as [E|Hne].
+    + rewrite E. apply app_eq_nil in E. destruct E as [_ E]. subst K. reflexivity.
+    + rewrite render_rel_nonnil by exact Hne.
+      rewrite split_join; [| exact Hne | apply Forall_good_nosep; apply Forall_good_dds_pg; exact HK].
+      rewrite norm_true_dds. apply (norm_pg true K [] HK).
+  - unfold kpath. rewrite render_abs.
+    change (split_sep (sep :: join_sep K)) with ([] :: split_sep (join_sep K)).
+    rewrite norm_cons. change (str_eqb [] [] || str_eqb [] s_dot) with true. cbv iota.
+    destruct (nil_dec _ K) as [E|Hne]; [subst K; reflexivity|].
+    rewrite split_join; [| exact Hne | apply Forall_good_nosep; exact (proj1 (Forall_pg_good K HK))].
+    apply (norm_pg true K [] HK).
+Qed.
+
+Lemma prefixes_from_app2 : forall (A : Type) (a b acc : list A),
+  prefixes_from acc (a ++ b) = prefixes_from acc a ++ prefixes_from (acc ++ a) b.
+Proof.
+  intros A a. induction a as [|x a IH]; intros b acc; cbn [app prefixes_from].
+  - rewrite app_nil_r. reflexivity.
+  - f_equal. rewrite IH. rewrite <- app_assoc. reflexivity.
+Qed.
+
+(** candidates that are directories are passed over *)
+Lemma rloop_skip : forall s A B g final,
+  (forall x, In x A -> exists fi, fs_lstat s (g x) = Ok fi /\ fi_kind fi <> KLink) ->
+  B <> [] ->
+  rloop s (A ++ B) g final = rloop s B g final /\
+  through_link s (A ++ B) g = through_link s B g.
+Proof.
+  intros s A B g final. induction A as [|a A IH]; intros HA HB.
+  - split; reflexivity.
+  - destruct (HA a (or_introl eq_refl)) as (fi & HL & Hk). cbn [app].
+    rewrite (rloop_step_plain s a (A ++ B) g final fi HL Hk).
+    rewrite (through_link_step_plain s a (A ++ B) g fi HL Hk).
+    destruct (IH (fun x Hx => HA x (or_intror Hx)) HB) as [E1 E2].
+    split; [|exact E2].
+    destruct (A ++ B) as [|y r] eqn:E; [|exact E1].
+    apply app_eq_nil in E. contradiction (HB (proj2 E)).
+Qed.
+
+(** "." and "..", "../..", ... are the root directory *)
+Lemma lstat_dds : forall s i, wf (st_fs s) ->
+  exists fi, fs_lstat s (render false (dds i)) = Ok fi /\ fi_kind fi = KDir.
+Proof.
+  intros s i [[m Hm] _].
+  assert (Hres : resolve (st_fs s) (render false (dds i)) false = WFound [] (Dir m)).
+  { pose proof walk_fuel_eq as Hf. destruct i as [|i].
+    - cbn [repeat render]. unfold resolve. change (split_sep s_dot) with [s_dot].
+      change (length s_dot) with 1. rewrite Nat.add_1_r. rewrite walk_trivial by reflexivity.
+      destruct walk_fuel as [|F]; [discriminate Hf|]. rewrite walk_nil. norm_keys. rewrite Hm. reflexivity.
+    - assert (Hne : dds (S i) <> []) by (cbn [repeat]; discriminate).
+      assert (Hg : Forall good_comp (dds (S i))).
+      { pose proof (Forall_good_dds_pg (S i) [] (Forall_nil _)) as H. rewrite app_nil_r in H. exact H. }
+      rewrite render_rel_nonnil by exact Hne. unfold resolve.
+      pose proof (join_sep_nonempty _ Hg Hne) as Hjn.
+      destruct (join_sep (dds (S i))) as [|x p] eqn:E; [contradiction Hjn; reflexivity|].
+      rewrite <- E. rewrite split_join by (try exact Hne; apply Forall_good_nosep; exact Hg).
+      pose proof (join_sep_dds_length (S i) []) as Hl. rewrite app_nil_r in Hl.
+      change (length (join_sep [])) with 0 in Hl.
+      replace (walk_fuel + length (join_sep (dds (S i))))
+        with (S i + S (walk_fuel + length (join_sep (dds (S i))) - S i - 1)) by lia.
+      rewrite <- (app_nil_r (dds (S i))) at 2. rewrite walk_dds_root.
+      rewrite walk_nil. norm_keys. rewrite Hm. reflexivity. }
+  eexists. split; [exact (fs_lstat_of_found s _ _ _ Hres) | reflexivity].
+Qed.
+
+Lemma dds_prefix_lstat : forall s j x,
+  wf (st_fs s) -> In x (map (render false) (prefixes_from [] (dds j))) ->
+  exists fi, fs_lstat s x = Ok fi /\ fi_kind fi <> KLink.
+Proof.
+  intros s j x Hwf Hin. apply in_map_iff in Hin. destruct Hin as (y & Ex & Hy).
+  apply in_prefixes in Hy. destruct Hy as [_ [l2 E]].
+  apply repeat_eq_app in E. destruct E as [E _]. rewrite <- E in Ex. subst x.
+  destruct (lstat_dds s (length y) Hwf) as (fi & HL & Hk).
+  exists fi. split; [exact HL | rewrite Hk; discriminate].
+Qed.
+
+Section RelPath.
+  Variable s : fstate.
+  Notation f := (st_fs s).
+  Variable n : str.
+  Hypothesis Hwf : wf f.
+  Hypothesis Hrel : is_abs n = false.
+  Variable j0 : nat.
+  Hypothesis Hshape : comps n = dds j0 ++ rcomps n.
+
+  Lemma clean_rel_rk : clean n = rk (Some j0) (rcomps n).
+  Proof. unfold clean. rewrite Hrel, Hshape. reflexivity. Qed.
+
+  (** the name consists of "." / ".." only: it is its own result *)
+  Lemma rpath_rel_nocomps : rcomps n = [] -> rpath s n = Ok (clean n).
+  Proof.
+    intro E. unfold rpath. rewrite clean_rel_rk, E. cbn [rk]. rewrite app_nil_r.
+    assert (Hg : Forall good_comp (dds j0)).
+    { pose proof (Forall_good_dds_pg j0 [] (Forall_nil _)) as H. rewrite app_nil_r in H. exact H. }
+    rewrite (cands_render false _ Hg).
+    destruct j0 as [|j].
+    - cbn [repeat pchain render].
+      destruct (lstat_dds s 0 Hwf) as (fi & HL & Hk). cbn [repeat render] in HL.
+      rewrite (rloop_step_plain s s_dot [] (fun x => x) s_dot fi HL) by (rewrite Hk; discriminate).
+      reflexivity.
+    - rewrite pchain_rel by (cbn [repeat]; discriminate).
+      replace (dds (S j)) with (dds j ++ [s_dotdot]) by (symmetry; apply repeat_cons).
+      rewrite prefixes_from_app2, map_app. cbn [app prefixes_from map].
+      destruct (rloop_skip s (map (render false) (prefixes_from [] (dds j)))
+                  [render false (dds j ++ [s_dotdot])] (fun x => x)
+                  (render false (dds j ++ [s_dotdot]))
+                  (fun x Hx => dds_prefix_lstat s j x Hwf Hx) ltac:(discriminate)) as [Er _].
+      rewrite Er.
+      destruct (lstat_dds s (S j) Hwf) as (fi & HL & Hk).
+      replace (dds (S j)) with (dds j ++ [s_dotdot]) in HL by (symmetry; apply repeat_cons).
+      rewrite (rloop_step_plain s _ [] (fun x => x) _ fi HL) by (rewrite Hk; discriminate).
+      reflexivity.
+  Qed.
+
+  (** the loop after the leading ".." candidates *)
+  Lemma rpath_rel_unfold : rcomps n <> [] ->
+    rpath s n = match rloop s (map (rk (Some j0)) (prefixes_from [] (rcomps n))) (fun x => x)
+                        (rk (Some j0) (rcomps n)) with
+                | Ok a => Ok (fst a) | Err e => Err e end /\
+    through_link s (cands (clean n)) (fun x => x) =
+    through_link s (map (rk (Some j0)) (prefixes_from [] (rcomps n))) (fun x => x).
+  Proof.
+    intro Hne. unfold rpath. rewrite clean_rel_rk.
+    assert (Ec : cands (rk (Some j0) (rcomps n)) =
+                 map (render false) (prefixes_from [] (dds j0)) ++
+                 map (rk (Some j0)) (prefixes_from [] (rcomps n))).
+    { cbn [rk]. rewrite (cands_render false _ (Forall_good_dds_pg j0 _ (rcomps_pg n))).
+      rewrite pchain_rel by (apply dds_app_nonnil; exact Hne).
+      rewrite prefixes_from_app2, map_app. cbn [app].
+      rewrite (prefixes_from_app _ (rcomps n) (dds j0)), map_map. reflexivity. }
+    rewrite Ec.
+    assert (HB : map (rk (Some j0)) (prefixes_from [] (rcomps n)) <> []).
+    { destruct (rcomps n) as [|c cs]; [contradiction Hne; reflexivity|].
+      rewrite prefixes_from_nil_cons. discriminate. }
+    destruct (rloop_skip s _ _ (fun x => x) (rk (Some j0) (rcomps n))
+                (fun x Hx => dds_prefix_lstat s j0 x Hwf Hx) HB) as [Er Et].
+    rewrite Er, Et. split; reflexivity.
+  Qed.
+
+  Hypothesis Htc : targets_clean f.
+  Hypothesis Htl : through_link s (cands (clean n)) (fun x => x) = false.
+
+  Lemma rpath_rel_post : rcomps n <> [] ->
+    exists md K, rpath s n = Ok (rk md K) /\ Forall pg K /\ K <> [] /\
+                 post s [] (rcomps n) (kpath K).
+  Proof.
+    intro Hne. destruct (rpath_rel_unfold Hne) as [Er Et]. rewrite Et in Htl.
+    destruct (rloop_inv_g s Hwf Htc (rk (Some j0) (rcomps n))
+                (rcomps n) [] (Some j0) (map (rk (Some j0)) (prefixes_from [] (rcomps n))) (fun x => x)
+                Hne (rcomps_pg n) (Forall_nil _) (NL_root s Hwf))
+      as (md & K & o & E & HK & HKne & Hp).
+    - apply Forall2_map_same.
+    - reflexivity.
+    - exact Htl.
+    - exists md, K. rewrite Er, E. repeat split; assumption.
+  Qed.
+
+  Lemma rpath_rel_total : exists rp, rpath s n = Ok rp.
+  Proof.
+    destruct (nil_dec _ (rcomps n)) as [E|E].
+    - eexists. apply rpath_rel_nocomps. exact E.
+    - destruct (rpath_rel_post E) as (md & K & Er & _). eexists. exact Er.
+  Qed.
+
+  Variable rp : str.
+  Hypothesis Hrp : rpath s n = Ok rp.
+
+  Lemma rel_result : rcomps n <> [] ->
+    exists md K, rp = rk md K /\ Forall pg K /\ K <> [] /\ post s [] (rcomps n) (kpath K).
+  Proof.
+    intro Hne. destruct (rpath_rel_post Hne) as (md & K & Er & H). rewrite Hrp in Er.
+    injection Er as Er. exists md, K. split; [exact Er | exact H].
+  Qed.
+
+  Lemma rel_result_nocomps : rcomps n = [] -> rp = rk (Some j0) [].
+  Proof.
+    intro E. pose proof (rpath_rel_nocomps E) as Er. rewrite Hrp in Er. injection Er as Er.
+    rewrite Er, clean_rel_rk, E. reflexivity.
+  Qed.
+
+  (** the result is cleaned; read from the root it is absolute, cleaned and
+      has no symlink among its proper ancestors *)
+  Lemma rpath_rel_nolinkpar : cleaned rp /\ nolinkpar f (clean (sep :: rp)).
+  Proof.
+    destruct (nil_dec _ (rcomps n)) as [E|Hne].
+    - rewrite (rel_result_nocomps E). split; [apply rk_cleaned; constructor|].
+      rewrite (clean_sep_rk _ [] (Forall_nil _)).
+      split; [apply kpath_pg_abs_cleaned; constructor|].
+      change (comps (kpath [])) with (@nil str). constructor.
+    - destruct (rel_result Hne) as (md & K & Erp & HK & HKne & Hp). subst rp.
+      split; [apply rk_cleaned; exact HK|].
+      rewrite (clean_sep_rk md K HK).
+      exact (post_nolinkpar s Hwf (rcomps n) (rcomps_pg n) _ Hp).
+  Qed.
+
+  (** the result names the entry the caller's name names under OS semantics *)
+  Lemma rpath_rel_same_entry :
+    definite (resolve f (clean n) false) ->
+    resolve f rp false = resolve f (clean n) false.
+  Proof.
+    intro Hdef. destruct (nil_dec _ (rcomps n)) as [E|Hne].
+    - rewrite (rel_result_nocomps E), clean_rel_rk, E. reflexivity.
+    - destruct (rel_result Hne) as (md & K & Erp & HK & HKne & Hp). subst rp.
+      rewrite clean_rel_rk in *.
+      pose proof (resolve_rk_walks f (Some j0) _ false (rcomps_pg n) Hne Hdef) as Hw.
+      pose proof (post_same_entry s Hwf (rcomps n) (rcomps_pg n) _ Hp _ Hw) as Hs.
+      rewrite <- Hs. apply resolve_rk; try assumption. rewrite Hs. exact Hdef.
+  Qed.
+
+  Lemma rpath_rel_final_unresolved : forall dcs b kd m,
+    rcomps n = dcs ++ [b] ->
+    resolve f (kpath dcs) true = WFound kd (Dir m) ->
+    clean (sep :: rp) = kpath (kd ++ [b]).
+  Proof.
+    intros dcs b kd m Ecs Hres.
+    assert (Hne : rcomps n <> []) by (rewrite Ecs; intro E0; apply app_eq_nil in E0; destruct E0 as [_ E0]; discriminate E0).
+    destruct (rel_result Hne) as (md & K & Erp & HK & HKne & Hp). subst rp.
+    rewrite (clean_sep_rk md K HK).
+    exact (post_final_unresolved s (rcomps n) (rcomps_pg n) _ Hp dcs b kd m Ecs Hres).
+  Qed.
+
+  Lemma rpath_rel_missing_tail : forall done c tail kd m,
+    rcomps n = done ++ c :: tail ->
+    resolve f (kpath done) true = WFound kd (Dir m) ->
+    f !! (kd ++ [c]) = None ->
+    clean (sep :: rp) = kpath (kd ++ c :: tail).
+  Proof.
+    intros done c tail kd m Ecs Hres Habsent.
+    assert (Hne : rcomps n <> []) by (rewrite Ecs; intro E0; apply app_eq_nil in E0; destruct E0 as [_ E0]; discriminate E0).
+    destruct (rel_result Hne) as (md & K & Erp & HK & HKne & Hp). subst rp.
+    rewrite (clean_sep_rk md K HK).
+    exact (post_missing_tail s (rcomps n) (rcomps_pg n) _ Hp done c tail kd m Ecs Hres Habsent).
+  Qed.
+
+  Lemma rpath_rel_lexical_tail : rcomps n <> [] ->
+    exists done tail k',
+      rcomps n = done ++ tail /\ tail <> [] /\ clean (sep :: rp) = kpath (k' ++ tail) /\
+      NL f k' /\
+      (length tail = 1 \/ f !! (k' ++ firstn 1 tail) = None) /\
+      (forall X fl r, (X <> [] \/ fl = true) ->
+         walks f [] (done ++ X) fl r -> walks f [] (k' ++ X) fl r).
+  Proof.
+    intro Hne. destruct (rel_result Hne) as (md & K & Erp & HK & HKne & Hp). subst rp.
+    rewrite (clean_sep_rk md K HK).
+    exact (post_lexical_tail s (rcomps n) _ Hp).
+  Qed.
+End RelPath.
+
+Lemma rpath_rel_no_efuel : forall s n T,
+  wf (st_fs s) -> is_abs n = false -> links_bounded (st_fs s) T ->
+  40 * T + 2 <= walk_fuel ->
+  rpath s n <> Err EFUEL.
+Proof.
+  intros s n T Hwf Hrel HT Hb.
+  destruct (rel_comps_shape n Hrel) as [j0 Hs].
+  destruct (nil_dec _ (rcomps n)) as [E|Hne].
+  - rewrite (rpath_rel_nocomps s n Hwf Hrel j0 Hs E). discriminate.
+  - destruct (rpath_rel_unfold s n Hwf Hrel j0 Hs Hne) as [Er _]. rewrite Er.
+    pose proof (rloop_no_efuel_g s T (rk (Some j0) (rcomps n)) (rcomps n) [] (Some j0)
+                  (map (rk (Some j0)) (prefixes_from [] (rcomps n))) (fun x => x) HT Hne
+                  (rcomps_pg n) (Forall_nil _) (Forall2_map_same _ _ _ _) eq_refl
+                  Hb) as H.
+    destruct (rloop s _ _ _) as [a|e]; [discriminate|]. intro E. injection E as E. subst e. apply H. reflexivity.
+Qed.
+
+(** ** the statements on worlds, for every name (absolute or relative) *)
+
+(** T1 (c) without the absoluteness hypothesis *)
+Theorem real_path_any_no_efuel : forall n w T,
+  wf (st_fs (w_st w)) -> links_bounded (st_fs (w_st w)) T ->
+  40 * T + 2 <= walk_fuel ->
+  fst (real_path osfs n w) <> MErr EFUEL.
+Proof.
+  intros n w T Hwf HT Hb. destruct (is_abs n) eqn:Ha.
+  - exact (real_path_no_efuel n w T Hwf Ha HT Hb).
+  - rewrite real_path_osfs. unfold res_to_m. cbn [fst].
+    pose proof (rpath_rel_no_efuel (w_st w) n T Hwf Ha HT Hb) as H.
+    destruct (rpath (w_st w) n) as [a|e]; [discriminate|]. intro E. injection E as E. subst e. apply H. reflexivity.
+Qed.
+
+(** the hypotheses of T2 without the exclusion of D20 *)
+Record c16_rel_hyps (q n : str) (w : world) : Prop := {
+  hr_wf : wf (st_fs (w_st w));
+  hr_d17 : resolve_through_link (plain_cfg q) (cands (clean n)) (fun x => x) w = false;
+  hr_k2 : unclean_target w = false }.
+
+Definition c16_rel_hypsb (q n : str) (w : world) : bool :=
+  wfb (st_fs (w_st w)) &&
+  negb (resolve_through_link (plain_cfg q) (cands (clean n)) (fun x => x) w) &&
+  negb (unclean_target w).
+
+Lemma c16_rel_hypsb_ok : forall q n w, c16_rel_hypsb q n w = true -> c16_rel_hyps q n w.
+Proof.
+  intros q n w H. unfold c16_rel_hypsb in H.
+  apply andb_true_iff in H. destruct H as [H H3].
+  apply andb_true_iff in H. destruct H as [H1 H2].
+  constructor.
+  - apply wfb_ok. exact H1.
+  - apply negb_true_iff. exact H2.
+  - apply negb_true_iff. exact H3.
+Qed.
+
+Lemma c16_rel_hyps_of_abs : forall q n w, c16_hyps q n w -> c16_rel_hyps q n w.
+Proof. intros q n w [H1 _ H3 H4]. constructor; assumption. Qed.
+
+Lemma c16_hyps_of_rel : forall q n w, c16_rel_hyps q n w -> is_abs n = true -> c16_hyps q n w.
+Proof.
+  intros q n w [H1 H2 H3] Ha. constructor; try assumption. rewrite is_abs_clean. exact Ha.
+Qed.
+
+Section StatementsAny.
+  Variables (q n : str) (w : world).
+  Hypothesis H : c16_rel_hyps q n w.
+  Notation f := (st_fs (w_st w)).
+
+  Let Hwf : wf f := hr_wf _ _ _ H.
+  Let Htc : targets_clean f := targets_clean_of_flag w (hr_k2 _ _ _ H).
+  Let Htl : through_link (w_st w) (cands (clean n)) (fun x => x) = false.
+  Proof. rewrite <- (resolve_through_link_osfs q). exact (hr_d17 _ _ _ H). Qed.
+
+  Theorem real_path_any_succeeds : exists rp, real_path osfs n w = (MOk rp, w).
+  Proof.
+    destruct (is_abs n) eqn:Ha.
+    - exact (real_path_succeeds q n w (c16_hyps_of_rel q n w H Ha)).
+    - destruct (rel_comps_shape n Ha) as [j0 Hs].
+      destruct (rpath_rel_total (w_st w) n Hwf Ha j0 Hs Htc Htl) as [rp E].
+      exists rp. rewrite real_path_osfs, E. reflexivity.
+  Qed.
+
+  Variable rp : str.
+  Hypothesis Hrp : fst (real_path osfs n w) = MOk rp.
+  Let Hrp' : rpath (w_st w) n = Ok rp := proj1 (real_path_ok_iff n w rp) Hrp.
+
+  (** the result is cleaned and, read from the working directory (the root),
+      has no symlink among its proper ancestors *)
+  Theorem real_path_any_nolinkpar : cleaned rp /\ nolinkpar f (clean (sep :: rp)).
+  Proof.
+    destruct (is_abs n) eqn:Ha.
+    - pose proof (real_path_nolinkpar q n w (c16_hyps_of_rel q n w H Ha) rp Hrp) as Hn.
+      rewrite (clean_sep_abs rp (proj1 Hn)). split; [exact (proj1 (proj1 Hn)) | exact Hn].
+    - destruct (rel_comps_shape n Ha) as [j0 Hs].
+      exact (rpath_rel_nolinkpar (w_st w) n Hwf Ha j0 Hs Htc Htl rp Hrp').
+  Qed.
+
+  Theorem real_path_any_same_entry :
+    definite (resolve f (clean n) false) ->
+    resolve f rp false = resolve f (clean n) false.
+  Proof.
+    destruct (is_abs n) eqn:Ha.
+    - exact (real_path_same_entry q n w (c16_hyps_of_rel q n w H Ha) rp Hrp).
+    - destruct (rel_comps_shape n Ha) as [j0 Hs].
+      exact (rpath_rel_same_entry (w_st w) n Hwf Ha j0 Hs Htc Htl rp Hrp').
+  Qed.
+
+  Theorem real_path_any_same_entry_bounded : forall T,
+    links_bounded f T -> 40 * T + 2 <= walk_fuel ->
+    resolve f (clean n) false <> WErr ELOOP ->
+    resolve f rp false = resolve f (clean n) false.
+  Proof.
+    intros T HT Hb Hloop. apply real_path_any_same_entry. split; [|exact Hloop].
+    exact (resolve_no_efuel f _ false T HT Hb).
+  Qed.
+
+  Theorem real_path_any_final_unresolved : forall dcs b kd m,
+    rcomps n = dcs ++ [b] ->
+    resolve f (kpath dcs) true = WFound kd (Dir m) ->
+    clean (sep :: rp) = kpath (kd ++ [b]).
+  Proof.
+    destruct (is_abs n) eqn:Ha.
+    - intros dcs b kd m Ecs Hres. rewrite (rcomps_abs n Ha) in Ecs.
+      pose proof (c16_hyps_of_rel q n w H Ha) as H'.
+      rewrite (clean_sep_abs rp (proj1 (real_path_nolinkpar q n w H' rp Hrp))).
+      exact (real_path_final_unresolved q n w H' rp Hrp dcs b kd m Ecs Hres).
+    - destruct (rel_comps_shape n Ha) as [j0 Hs].
+      exact (rpath_rel_final_unresolved (w_st w) n Hwf Ha j0 Hs Htc Htl rp Hrp').
+  Qed.
+
+  Theorem real_path_any_missing_tail : forall done c tail kd m,
+    rcomps n = done ++ c :: tail ->
+    resolve f (kpath done) true = WFound kd (Dir m) ->
+    f !! (kd ++ [c]) = None ->
+    clean (sep :: rp) = kpath (kd ++ c :: tail).
+  Proof.
+    destruct (is_abs n) eqn:Ha.
+    - intros done c tail kd m Ecs Hres Habsent. rewrite (rcomps_abs n Ha) in Ecs.
+      pose proof (c16_hyps_of_rel q n w H Ha) as H'.
+      rewrite (clean_sep_abs rp (proj1 (real_path_nolinkpar q n w H' rp Hrp))).
+      exact (real_path_missing_tail q n w H' rp Hrp done c tail kd m Ecs Hres Habsent).
+    - destruct (rel_comps_shape n Ha) as [j0 Hs].
+      exact (rpath_rel_missing_tail (w_st w) n Hwf Ha j0 Hs Htc Htl rp Hrp').
+  Qed.
+
+  Theorem real_path_any_lexical_tail : rcomps n <> [] ->
+    exists done tail k',
+      rcomps n = done ++ tail /\ tail <> [] /\ clean (sep :: rp) = kpath (k' ++ tail) /\
+      NL f k' /\
+      (length tail = 1 \/ f !! (k' ++ firstn 1 tail) = None) /\
+      (forall X fl r, (X <> [] \/ fl = true) ->
+         walks f [] (done ++ X) fl r -> walks f [] (k' ++ X) fl r).
+  Proof.
+    destruct (is_abs n) eqn:Ha.
+    - intro Hne. rewrite (rcomps_abs n Ha) in *.
+      pose proof (c16_hyps_of_rel q n w H Ha) as H'.
+      rewrite (clean_sep_abs rp (proj1 (real_path_nolinkpar q n w H' rp Hrp))).
+      exact (real_path_lexical_tail q n w H' rp Hrp Hne).
+    - destruct (rel_comps_shape n Ha) as [j0 Hs].
+      exact (rpath_rel_lexical_tail (w_st w) n Hwf Ha j0 Hs Htc Htl rp Hrp').
+  Qed.
+End StatementsAny.
+
+(** T2 (b) for every name, with the hypotheses spelled out *)
+Theorem real_path_relative_same_entry : forall q n w rp,
+  wf (st_fs (w_st w)) ->
+  resolve_through_link (plain_cfg q) (cands (clean n)) (fun x => x) w = false ->
+  unclean_target w = false ->
+  fst (real_path osfs n w) = MOk rp ->
+  definite (resolve (st_fs (w_st w)) (clean n) false) ->
+  resolve (st_fs (w_st w)) rp false = resolve (st_fs (w_st w)) (clean n) false.
+Proof.
+  intros q n w rp H1 H2 H3.
+  exact (real_path_any_same_entry q n w (Build_c16_rel_hyps q n w H1 H2 H3) rp).
+Qed.
+
+(** the exclusions in terms of the trigger list: no recorded finding other
+    than D20 (relative name) applies *)
+Lemma c16_rel_hyps_of_triggers : forall q n w,
+  wf (st_fs (w_st w)) ->
+  (forall t, In t (triggers (plain_cfg q) (ORealPath n) w) -> t = TrRelativeName) ->
+  c16_rel_hyps q n w.
+Proof.
+  intros q n w Hwf H. constructor; [exact Hwf | |].
+  - destruct (resolve_through_link (plain_cfg q) (cands (clean n)) (fun x => x) w) eqn:E; [|reflexivity].
+    assert (Hin : In TrLinkThroughLink (triggers (plain_cfg q) (ORealPath n) w)).
+    { unfold triggers. cbn [follows_final op_paths existsb]. rewrite E, orb_true_r.
+      apply in_or_app; right. apply in_or_app; right. apply in_or_app; left. left. reflexivity. }
+    specialize (H _ Hin). discriminate H.
+  - destruct (unclean_target w) eqn:E; [|reflexivity].
+    apply (unclean_target_flag (plain_cfg q)) in E.
+    assert (Hin : In TrUncleanLinkTarget (triggers (plain_cfg q) (ORealPath n) w)).
+    { unfold triggers. remember (link_flags (plain_cfg q) w) as lf eqn:Elf.
+      repeat (apply in_or_app; right). exact E. }
+    specialize (H _ Hin). discriminate H.
+Qed.
+
+(** ** fixpoints and idempotence for every name *)
+
+Lemma rloop_fix_g : forall s md rest k acc,
+  wf (st_fs s) ->
+  rest <> [] -> Forall pg rest -> Forall pg k -> NL (st_fs s) k ->
+  (forall pre post, rest = pre ++ post -> pre <> [] -> post <> [] -> not_link_at (st_fs s) (k ++ pre)) ->
+  Forall2 (fun x pre => x = rk md (k ++ pre)) acc (prefixes_from [] rest) ->
+  exists o, rloop s acc (fun x => x) (rk md (k ++ rest)) = Ok (rk md (k ++ rest), o).
+Proof.
+  intros s md rest. induction rest as [|c rest1 IH]; intros k acc Hwf Hne Hrest Hk Hnl Hmid Hacc.
+  - contradiction Hne. reflexivity.
+  - inversion Hrest as [|c' r' Hc Hrest1]; subst c' r'.
+    rewrite prefixes_from_nil_cons in Hacc.
+    inversion Hacc as [|q pre0 acc1 pres Hq Hacc1]; subst.
+    apply Forall2_map_r' in Hacc1.
+    pose proof (lstat_key_g s md k c Hwf Hk Hc Hnl) as HL.
+    set (g := fun x : str => x) in *.
+    assert (Hq : g (rk md (k ++ [c])) = rk md (k ++ [c])) by reflexivity.
+    remember (rk md (k ++ [c])) as p eqn:Ep.
+    destruct (st_fs s !! (k ++ [c])) as [n|] eqn:El.
+    + destruct HL as [(fi & HL & Hkind) Hrl]. rewrite <- Hq in HL, Hrl.
+      destruct rest1 as [|c1 rest2].
+      * inversion Hacc1; subst acc1.
+        destruct (match n with Link _ _ => true | _ => false end) eqn:Ekind.
+        -- destruct n as [m|m dt|m t]; cbn in Ekind; try discriminate Ekind.
+           specialize (Hrl m t eq_refl). cbn [node_kind] in Hkind.
+           rewrite (rloop_step_link s p [] g _ _ t HL Hkind Hrl). rewrite Hq, <- Ep. eexists. reflexivity.
+        -- assert (Hnk : fi_kind fi <> KLink).
+           { rewrite Hkind. destruct n; cbn in Ekind; try discriminate Ekind; cbn; discriminate. }
+           rewrite (rloop_step_plain s p [] g _ _ HL Hnk). rewrite Hq, <- Ep. eexists. reflexivity.
+      * destruct acc1 as [|q1 acc2]; [inversion Hacc1|].
+        assert (Hnlc : not_link_at (st_fs s) (k ++ [c])).
+        { apply (Hmid [c] (c1 :: rest2) eq_refl); discriminate. }
+        assert (Hnk : fi_kind fi <> KLink).
+        { rewrite Hkind. destruct n as [m|m dt|m t]; cbn; try discriminate. exfalso. exact (Hnlc m t El). }
+        rewrite (rloop_step_plain s p _ g _ _ HL Hnk).
+        replace (k ++ c :: c1 :: rest2) with ((k ++ [c]) ++ c1 :: rest2) by (rewrite <- app_assoc; reflexivity).
+        apply IH; try assumption.
+        -- discriminate.
+        -- apply Forall_app. split; [exact Hk | constructor; [exact Hc | constructor]].
+        -- apply NL_snoc; assumption.
+        -- intros pre post E Hpre Hpost. rewrite <- app_assoc. apply (Hmid (c :: pre) post); [rewrite E; reflexivity | discriminate | exact Hpost].
+        -- eapply Forall2_impl_In_r; [|exact Hacc1]. intros x y _ E. cbv beta in E.
+           rewrite E, <- app_assoc. reflexivity.
+    + destruct HL as (e & HLe & Hnf). rewrite <- Hq in HLe.
+      rewrite (rloop_step_notfound s p acc1 g _ e HLe Hnf). eexists. reflexivity.
+Qed.
+
+Lemma rcomps_rk : forall md K, Forall pg K -> rcomps (rk md K) = K.
+Proof.
+  intros md K HK. pose proof (clean_sep_rk md K HK) as E.
+  unfold rcomps. rewrite <- (comps_clean (sep :: rk md K)), E. apply comps_kpath_pg. exact HK.
+Qed.
+
+(** a relative string without a symlink among the ancestors of its key is a fixpoint *)
+Lemma rpath_fix_rel : forall s j K,
+  wf (st_fs s) -> Forall pg K -> nolinkpar (st_fs s) (kpath K) ->
+  rpath s (rk (Some j) K) = Ok (rk (Some j) K).
+Proof.
+  intros s j K Hwf HK [_ Hnl]. rewrite (comps_kpath_pg K HK) in Hnl.
+  set (n := rk (Some j) K).
+  assert (Hrel : is_abs n = false) by exact (is_abs_rel_render j K HK).
+  assert (Hrc : rcomps n = K) by exact (rcomps_rk (Some j) K HK).
+  assert (Hs : comps n = dds j ++ rcomps n) by (rewrite Hrc; exact (comps_rel_render j K HK)).
+  assert (Hcl : clean n = n) by exact (cleaned_rel_render j K HK).
+  destruct (nil_dec _ K) as [E|Hne].
+  - rewrite (rpath_rel_nocomps s n Hwf Hrel j Hs); [rewrite Hcl; reflexivity | rewrite Hrc; exact E].
+  - destruct (rpath_rel_unfold s n Hwf Hrel j Hs) as [Er _]; [rewrite Hrc; exact Hne|].
+    rewrite Er, Hrc.
+    destruct (rloop_fix_g s (Some j) K [] (map (rk (Some j)) (prefixes_from [] K)) Hwf Hne
+                HK (Forall_nil _) (NL_root s Hwf)) as [o Eo].
+    + intros pre post E _ Hpost. cbn [app].
+      exact (proj1 (Forall_kprefixes _ _) Hnl pre post Hpost E).
+    + apply Forall2_map_same.
+    + cbn [app] in Eo. rewrite Eo. reflexivity.
+Qed.
+
+(** T3 for every name: a cleaned name which, read from the working directory
+    (the root), has no symlink among its proper ancestors resolves to itself *)
+Theorem real_path_any_fixpoint : forall p w,
+  wf (st_fs (w_st w)) -> cleaned p -> nolinkpar (st_fs (w_st w)) (clean (sep :: p)) ->
+  real_path osfs p w = (MOk p, w).
+Proof.
+  intros p w Hwf Hcl Hnlp. destruct (is_abs p) eqn:Ha.
+  - rewrite (clean_sep_abs p (conj Hcl Ha)) in Hnlp. exact (real_path_fixpoint p w Hwf Hnlp).
+  - pose proof (cleaned_eq p Hcl) as Ep. rewrite Ha in Ep.
+    pose proof (comps_normal p) as Hn. rewrite Ha in Hn.
+    destruct (normal_rel_shape _ Hn) as (j & K & Esh & HK).
+    rewrite Esh in Ep. change (render false (dds j ++ K)) with (rk (Some j) K) in Ep.
+    rewrite Ep in *. rewrite (clean_sep_rk (Some j) K HK) in Hnlp.
+    rewrite real_path_osfs, (rpath_fix_rel (w_st w) j K Hwf HK Hnlp). reflexivity.
+Qed.
+
+Theorem real_path_any_idempotent : forall q n w rp,
+  c16_rel_hyps q n w -> fst (real_path osfs n w) = MOk rp ->
+  real_path osfs rp w = (MOk rp, w).
+Proof.
+  intros q n w rp H Hrp.
+  destruct (real_path_any_nolinkpar q n w H rp Hrp) as [Hcl Hnlp].
+  exact (real_path_any_fixpoint rp w (hr_wf _ _ _ H) Hcl Hnlp).
+Qed.
+
+(* ------------------------------------------------------------------ *)
+(** * L. T4: the hypotheses are satisfiable, and each exclusion is necessary *)
 
 Local Open Scope N_scope.
 
@@ -1991,4 +3154,61 @@ Example k4_not_needed :
 Proof.
   split; [vm_compute; reflexivity|].
   split; [vm_compute; reflexivity|]. split; vm_compute; reflexivity.
+Qed.
+
+(** relative names: the hypotheses without D20 are satisfiable, and the
+    theorems apply.  { /d/, /d/x, /l -> ../d, /d/m -> ../../../d }, name
+    "l/m/x": both targets climb above the working directory (K3); the result
+    "../../../d/x" is relative, with leading ".." that the kernel clamps *)
+Definition w_rel : world :=
+  xL (xL (xF (xD init_world [47;100]) [47;100;47;120]) [47;108] [46;46;47;100])
+     [47;100;47;109] [46;46;47;46;46;47;46;46;47;100].
+Definition n_rel : str := [108;47;109;47;120].
+Definition rp_rel : str := [46;46;47;46;46;47;46;46;47;100;47;120].
+
+Example rel_sat :
+  c16_rel_hypsb xq n_rel w_rel = true /\ is_abs (clean n_rel) = false /\
+  fst (real_path osfs n_rel w_rel) = MOk rp_rel /\
+  (cleaned rp_rel /\ nolinkpar (st_fs (w_st w_rel)) (clean (sep :: rp_rel))) /\
+  resolve (st_fs (w_st w_rel)) rp_rel false = resolve (st_fs (w_st w_rel)) (clean n_rel) false.
+Proof.
+  assert (Hh : c16_rel_hypsb xq n_rel w_rel = true) by (vm_compute; reflexivity).
+  assert (Hr : fst (real_path osfs n_rel w_rel) = MOk rp_rel) by (vm_compute; reflexivity).
+  pose proof (c16_rel_hypsb_ok _ _ _ Hh) as H.
+  split; [exact Hh|]. split; [vm_compute; reflexivity|]. split; [exact Hr|]. split.
+  - exact (real_path_any_nolinkpar xq n_rel w_rel H rp_rel Hr).
+  - apply (real_path_any_same_entry xq n_rel w_rel H rp_rel Hr). vm_compute. split; discriminate.
+Qed.
+
+(** the tree of [sat_hyps] with the relative name "../a/r/f": a leading "..",
+    then the absolute link /a: from there on the candidates are absolute, and
+    so is the result "/d/e/f" *)
+Definition n_rel2 : str := [46;46;47;97;47;114;47;102].
+
+Example rel_sat_abs_link :
+  c16_rel_hypsb xq n_rel2 w_sat = true /\ is_abs (clean n_rel2) = false /\
+  fst (real_path osfs n_rel2 w_sat) = MOk rp_sat /\
+  resolve (st_fs (w_st w_sat)) rp_sat false = resolve (st_fs (w_st w_sat)) (clean n_rel2) false.
+Proof.
+  assert (Hh : c16_rel_hypsb xq n_rel2 w_sat = true) by (vm_compute; reflexivity).
+  assert (Hr : fst (real_path osfs n_rel2 w_sat) = MOk rp_sat) by (vm_compute; reflexivity).
+  pose proof (c16_rel_hypsb_ok _ _ _ Hh) as H.
+  split; [exact Hh|]. split; [vm_compute; reflexivity|]. split; [exact Hr|].
+  apply (real_path_any_same_entry xq n_rel2 w_sat H rp_sat Hr). vm_compute. split; discriminate.
+Qed.
+
+(** the D20 example again: its relative result "d/y" names the caller's
+    entry, and read from the root it has no symlink among its ancestors *)
+Example d20_covered :
+  c16_rel_hypsb xq n_d20 w_d20 = true /\
+  fst (real_path osfs n_d20 w_d20) = MOk rp_d20 /\
+  nolinkpar (st_fs (w_st w_d20)) (clean (sep :: rp_d20)) /\
+  resolve (st_fs (w_st w_d20)) rp_d20 false = resolve (st_fs (w_st w_d20)) (clean n_d20) false.
+Proof.
+  assert (Hh : c16_rel_hypsb xq n_d20 w_d20 = true) by (vm_compute; reflexivity).
+  assert (Hr : fst (real_path osfs n_d20 w_d20) = MOk rp_d20) by (vm_compute; reflexivity).
+  pose proof (c16_rel_hypsb_ok _ _ _ Hh) as H.
+  split; [exact Hh|]. split; [exact Hr|]. split.
+  - exact (proj2 (real_path_any_nolinkpar xq n_d20 w_d20 H rp_d20 Hr)).
+  - apply (real_path_any_same_entry xq n_d20 w_d20 H rp_d20 Hr). vm_compute. split; discriminate.
 Qed.
